@@ -23,9 +23,8 @@ macro "bspecC" : tactic => `(tactic|
 set_option hygiene false in
 /-- the stepping actor is actor 0: evaluate the clauses about `pcs 0` at `hpc : pcs 0 = …` -/
 macro "bspec0" : tactic => `(tactic|
-  (simp [hpc, isNew, taken, inRetire, atNextHead, dropDone, dflag, dEnd, kd, locHb, locPi, locCi] at nb1 nb2 dfl hd hb2 hb3 lHb lPi lCi lFast lStore lCopy lHead dE dF1 df2a df2b df3 oldR1 oldR2 liveR hbT dT anh
+  (simp [hpc, isNew, taken, inRetire, atNextHead, dropDone, dflag, dEnd, kd, locHb, locPi, locCi, isFast, isCopy, ceOf, isRd] at nb1 nb2 dfl hd hb2 hb3 lHb lPi lCi lFast lStore lCopy lRd lHead dE dF1 df2a df2b df3 oldR1 oldR2 liveR hbT dT anh
    (try subst lHb); (try subst lPi); (try subst lCi); (try subst lHead)
-   (try (have lCopy := lCopy _ _ _ _ rfl rfl rfl rfl))
    have hu0 : ∀ pc, upd pcs 0 pc 0 = pc := fun _ => by simp [upd]))
 
 set_option hygiene false in
@@ -36,14 +35,15 @@ macro "bnonzero" : tactic => `(tactic|
 set_option hygiene false in
 /-- destructure `h : Inv ⟨n, sh, pcs, apcs⟩`; expects `hlt : t < n`, `hpc : pcs t = …`, and the variable `aa` -/
 macro "bdestr" tt:term : tactic => `(tactic|
-  (have psetA := h.psetA; have waitA := h.waitA; have psetB := h.psetB; have hbT := h.hbT; have refR := h.refR; have dT := h.dT; have pidxA := h.pidxA; have anh := anh_of (pcs 0); have dEf := dEf_of (pcs 0); have unl := unl_of (pcs (sh.a.own (sh.a.res - 1)))
-   obtain ⟨aB, bpos, ainv, sim, nSB, nUaf, nDf, nPn, idleN, cons0, alc, pre, pre0, newc, preA, preR, nb0, nb1, nb2, drp, dfl, geo, fresh, tw, nbv, cl1, cl2, cl3, pset, pcas, cAl, cWt, cLk, cTl, lnk, rdyR, valR, hd, hb1, hb2, hb3, lHb, lPi, lCi, lFast, lStore, lCopy, lHead, dE, dF1, df2a, df2b, df3, oldR1, oldR2, liveR⟩ := h
+  (have psetA := h.psetA; have waitA := h.waitA; have psetB := h.psetB; have hbT := h.hbT; have refR := h.refR; have psU := h.psU; have dT := h.dT; have pidxA := h.pidxA; have anh := anh_of (pcs 0); have dEf := dEf_of (pcs 0); have unl := unl_of (pcs (sh.a.own (sh.a.res - 1)))
+   obtain ⟨aB, bpos, ainv, sim, nSB, nUaf, nDf, nPn, idleN, cons0, alc, pre, pre0, newc, preA, preR, nb0, nb1, nb2, drp, dfl, geo, fresh, tw, nbv, cl1, cl2, cl3, pset, psv, pcas, cAl, cWt, cLk, cTl, lnk, rdyR, valR, hd, hb1, hb2, hb3, lHb, lPi, lCi, lFast, lStore, lCopy, lRd, lHead, dE, dF1, df2a, df2b, df3, oldR1, oldR2, liveR⟩ := h
    have A_hl := ainv.hl; have A_lr := ainv.lr; have A_lc := ainv.lc; have A_helped := ainv.helped
    have A_rdy := fun i hi => (ainv.rdy i hi).1
    have hA' := ainv_adv n sh.a apcs $tt aa hlt ainv
    have hsim := sim $tt
-   simp only at aB bpos ainv sim nSB nUaf nDf nPn idleN cons0 alc pre pre0 newc preA preR nb0 nb1 nb2 drp dfl geo fresh tw nbv cl1 cl2 cl3 pset pcas cAl cWt cLk cTl lnk rdyR valR hd hb1 hb2 hb3 lHb lPi lCi lFast lStore lCopy lHead dE dF1 df2a df2b df3 oldR1 oldR2 liveR A_hl A_lr A_lc A_helped A_rdy psetA waitA psetB hbT refR dT pidxA anh unl dEf hA' hsim
-   rw [hpc] at hsim; simp only [proj] at hsim; rw [hsim] at hA'; rw [hsim]))
+   simp only at aB bpos ainv sim nSB nUaf nDf nPn idleN cons0 alc pre pre0 newc preA preR nb0 nb1 nb2 drp dfl geo fresh tw nbv cl1 cl2 cl3 pset psv pcas cAl cWt cLk cTl lnk rdyR valR hd hb1 hb2 hb3 lHb lPi lCi lFast lStore lCopy lRd lHead dE dF1 df2a df2b df3 oldR1 oldR2 liveR A_hl A_lr A_lc A_helped A_rdy psetA waitA psetB hbT refR psU dT pidxA anh unl dEf hA' hsim
+   simp only [clo] at nbv cl1 cl2 cl3 pset lnk
+   rw [hpc] at hsim; simp only [proj, eq_self, Bool.false_eq_true, ↓reduceIte] at hsim; rw [hsim] at hA'; rw [hsim]))
 
 set_option hygiene false in
 /-- split `hts : tstepC … = some (sh', pc', aa)` into the branches of the concrete step -/
@@ -55,17 +55,17 @@ macro "bbranches" : tactic => `(tactic|
 macro "bsimp" : tactic => `(tactic| simp only [nextSt, clo, touch, alloc, free, proj, linz_B, linz_res, linz_closing, linz_ready, linz_val, linz_own, linz_head, take_B, take_res, take_closing, take_ready, take_val, take_own, take_head, noneLP_B, noneLP_res, noneLP_closing, noneLP_ready, noneLP_val, noneLP_own, noneLP_head, ite_linz_B, ite_linz_res, ite_linz_closing, ite_linz_ready, ite_linz_val, ite_linz_own, ite_linz_head])
 
 /-- clear all hypotheses introduced by `bdestr` -/
-macro "bclearAll" : tactic => `(tactic| clearIf aB bpos nSB nUaf nDf nPn A_hl A_lr A_lc A_helped A_rdy psetA waitA psetB hbT idleN cons0 alc pre pre0 newc preA preR nb0 nb1 nb2 drp dfl geo fresh tw nbv pidxA cl1 cl2 cl3 pset pcas cAl cWt cLk cTl refR unl lnk rdyR valR hd hb1 hb2 hb3 anh lHb lPi lCi lFast lStore lCopy lHead dE dF1 df2a df2b df3 dT dEf oldR1 oldR2 liveR ainv sim hA' hsim hx1 hx2 hx3 hx4 hx5 hx6 hx7)
+macro "bclearAll" : tactic => `(tactic| clearIf aB bpos nSB nUaf nDf nPn A_hl A_lr A_lc A_helped A_rdy psetA waitA psetB hbT idleN cons0 alc pre pre0 newc preA preR nb0 nb1 nb2 drp dfl geo fresh tw nbv pidxA cl1 cl2 cl3 pset psv psU pcas cAl cWt cLk cTl refR unl lnk rdyR valR hd hb1 hb2 hb3 anh lHb lPi lCi lFast lStore lCopy lRd lHead dE dF1 df2a df2b df3 dT dEf oldR1 oldR2 liveR ainv sim hA' hsim hx1 hx2 hx3 hx4 hx5 hx6 hx7)
 
 set_option hygiene false in
 /-- one goal per clause of `Inv` -/
 macro "bfin" tt:term : tactic => `(tactic|
   (constructor
    case aB =>
-     clearIf nSB nUaf nDf nPn A_hl A_lr A_lc A_helped A_rdy psetA waitA psetB hbT idleN cons0 alc pre pre0 newc preA preR nb0 nb1 nb2 drp dfl geo fresh tw nbv pidxA cl1 cl2 cl3 pset pcas cAl cWt cLk cTl refR unl lnk rdyR valR hd hb1 hb2 hb3 anh lHb lPi lCi lFast lStore lCopy lHead dE dF1 df2a df2b df3 dT dEf oldR1 oldR2 liveR ainv sim hA' hsim hx1 hx2 hx3 hx4 hx5 hx6 hx7
+     clearIf nSB nUaf nDf nPn A_hl A_lr A_lc A_helped A_rdy psetA waitA psetB hbT idleN cons0 alc pre pre0 newc preA preR nb0 nb1 nb2 drp dfl geo fresh tw nbv pidxA cl1 cl2 cl3 pset psv psU pcas cAl cWt cLk cTl refR unl lnk rdyR valR hd hb1 hb2 hb3 anh lHb lPi lCi lFast lStore lCopy lRd lHead dE dF1 df2a df2b df3 dT dEf oldR1 oldR2 liveR ainv sim hA' hsim hx1 hx2 hx3 hx4 hx5 hx6 hx7
      (first | simp only [nextSt, clo, hu0, touch, alloc, free, proj, linz_B, linz_res, linz_closing, linz_ready, linz_val, linz_own, linz_head, take_B, take_res, take_closing, take_ready, take_val, take_own, take_head, noneLP_B, noneLP_res, noneLP_closing, noneLP_ready, noneLP_val, noneLP_own, noneLP_head, ite_linz_B, ite_linz_res, ite_linz_closing, ite_linz_ready, ite_linz_val, ite_linz_own, ite_linz_head] | skip) <;> grind
    case bpos =>
-     clearIf nSB nUaf nDf nPn A_hl A_lr A_lc A_helped A_rdy psetA waitA psetB hbT idleN cons0 alc pre pre0 newc preA preR nb0 nb1 nb2 drp dfl geo fresh tw nbv pidxA cl1 cl2 cl3 pset pcas cAl cWt cLk cTl refR unl lnk rdyR valR hd hb1 hb2 hb3 anh lHb lPi lCi lFast lStore lCopy lHead dE dF1 df2a df2b df3 dT dEf oldR1 oldR2 liveR ainv sim hA' hsim hx1 hx2 hx3 hx4 hx5 hx6 hx7
+     clearIf nSB nUaf nDf nPn A_hl A_lr A_lc A_helped A_rdy psetA waitA psetB hbT idleN cons0 alc pre pre0 newc preA preR nb0 nb1 nb2 drp dfl geo fresh tw nbv pidxA cl1 cl2 cl3 pset psv psU pcas cAl cWt cLk cTl refR unl lnk rdyR valR hd hb1 hb2 hb3 anh lHb lPi lCi lFast lStore lCopy lRd lHead dE dF1 df2a df2b df3 dT dEf oldR1 oldR2 liveR ainv sim hA' hsim hx1 hx2 hx3 hx4 hx5 hx6 hx7
      (first | simp only [nextSt, clo, hu0, touch, alloc, free, proj, linz_B, linz_res, linz_closing, linz_ready, linz_val, linz_own, linz_head, take_B, take_res, take_closing, take_ready, take_val, take_own, take_head, noneLP_B, noneLP_res, noneLP_closing, noneLP_ready, noneLP_val, noneLP_own, noneLP_head, ite_linz_B, ite_linz_res, ite_linz_closing, ite_linz_ready, ite_linz_val, ite_linz_own, ite_linz_head] | skip) <;> grind
    case ainv => exact hA'
    case sim =>
@@ -90,103 +90,106 @@ macro "bfin" tt:term : tactic => `(tactic|
      clearIf nSB nUaf nDf psetA waitA psetB hbT geo fresh rdyR valR oldR1 oldR2 liveR ainv sim hA' hsim hx1 hx2 hx3 hx4 hx5 hx6 hx7
      (first | simp only [nextSt, clo, hu0, touch, alloc, free, proj, linz_B, linz_res, linz_closing, linz_ready, linz_val, linz_own, linz_head, take_B, take_res, take_closing, take_ready, take_val, take_own, take_head, noneLP_B, noneLP_res, noneLP_closing, noneLP_ready, noneLP_val, noneLP_own, noneLP_head, ite_linz_B, ite_linz_res, ite_linz_closing, ite_linz_ready, ite_linz_val, ite_linz_own, ite_linz_head] | skip) <;> grind
    case idleN =>
-     clearIf nSB nUaf nDf nPn A_hl A_lr A_lc A_helped A_rdy psetA waitA psetB hbT cons0 alc pre pre0 newc preA preR nb0 nb1 nb2 drp dfl geo fresh tw nbv pidxA cl1 cl2 cl3 pset pcas cAl cWt cLk cTl refR unl lnk rdyR valR hd hb1 hb2 hb3 anh lHb lPi lCi lFast lStore lCopy lHead dE dF1 df2a df2b df3 dT dEf oldR1 oldR2 liveR ainv sim hA' hsim hx1 hx2 hx3 hx4 hx5 hx6 hx7
+     clearIf nSB nUaf nDf nPn A_hl A_lr A_lc A_helped A_rdy psetA waitA psetB hbT cons0 alc pre pre0 newc preA preR nb0 nb1 nb2 drp dfl geo fresh tw nbv pidxA cl1 cl2 cl3 pset psv psU pcas cAl cWt cLk cTl refR unl lnk rdyR valR hd hb1 hb2 hb3 anh lHb lPi lCi lFast lStore lCopy lRd lHead dE dF1 df2a df2b df3 dT dEf oldR1 oldR2 liveR ainv sim hA' hsim hx1 hx2 hx3 hx4 hx5 hx6 hx7
      (first | simp only [nextSt, clo, hu0, touch, alloc, free, proj, linz_B, linz_res, linz_closing, linz_ready, linz_val, linz_own, linz_head, take_B, take_res, take_closing, take_ready, take_val, take_own, take_head, noneLP_B, noneLP_res, noneLP_closing, noneLP_ready, noneLP_val, noneLP_own, noneLP_head, ite_linz_B, ite_linz_res, ite_linz_closing, ite_linz_ready, ite_linz_val, ite_linz_own, ite_linz_head] | skip) <;> grind
    case cons0 =>
-     clearIf nSB nUaf nDf nPn A_hl A_lr A_lc A_helped A_rdy psetA waitA psetB hbT alc pre pre0 newc preA preR nb0 nb1 nb2 drp dfl geo fresh tw nbv pidxA cl1 cl2 cl3 pset pcas cAl cWt cLk cTl refR unl lnk rdyR valR hd hb1 hb2 hb3 anh lHb lPi lCi lFast lStore lCopy lHead dE dF1 df2a df2b df3 dT dEf oldR1 oldR2 liveR ainv sim hA' hsim hx1 hx2 hx3 hx4 hx5 hx6 hx7
+     clearIf nSB nUaf nDf nPn A_hl A_lr A_lc A_helped A_rdy psetA waitA psetB hbT alc pre pre0 newc preA preR nb0 nb1 nb2 drp dfl geo fresh tw nbv pidxA cl1 cl2 cl3 pset psv psU pcas cAl cWt cLk cTl refR unl lnk rdyR valR hd hb1 hb2 hb3 anh lHb lPi lCi lFast lStore lCopy lRd lHead dE dF1 df2a df2b df3 dT dEf oldR1 oldR2 liveR ainv sim hA' hsim hx1 hx2 hx3 hx4 hx5 hx6 hx7
      (first | simp only [nextSt, clo, hu0, touch, alloc, free, proj, linz_B, linz_res, linz_closing, linz_ready, linz_val, linz_own, linz_head, take_B, take_res, take_closing, take_ready, take_val, take_own, take_head, noneLP_B, noneLP_res, noneLP_closing, noneLP_ready, noneLP_val, noneLP_own, noneLP_head, ite_linz_B, ite_linz_res, ite_linz_closing, ite_linz_ready, ite_linz_val, ite_linz_own, ite_linz_head] | skip) <;> grind
    case alc =>
-     clearIf nSB nUaf nDf nPn A_hl A_lr A_lc A_helped A_rdy psetA waitA psetB hbT geo fresh tw nbv pidxA cl1 cl2 cl3 pset pcas cAl cWt cLk cTl refR unl lnk rdyR valR hd hb1 hb2 hb3 anh lHb lPi lCi lFast lStore lCopy lHead dE dF1 df2a df2b df3 dT dEf oldR1 oldR2 liveR ainv sim hA' hsim hx1 hx2 hx3 hx4 hx5 hx6 hx7
+     clearIf nSB nUaf nDf nPn A_hl A_lr A_lc A_helped A_rdy psetA waitA psetB hbT geo fresh tw nbv pidxA cl1 cl2 cl3 pset psv psU pcas cAl cWt cLk cTl refR unl lnk rdyR valR hd hb1 hb2 hb3 anh lHb lPi lCi lFast lStore lCopy lRd lHead dE dF1 df2a df2b df3 dT dEf oldR1 oldR2 liveR ainv sim hA' hsim hx1 hx2 hx3 hx4 hx5 hx6 hx7
      (first | simp only [nextSt, clo, hu0, touch, alloc, free, proj, linz_B, linz_res, linz_closing, linz_ready, linz_val, linz_own, linz_head, take_B, take_res, take_closing, take_ready, take_val, take_own, take_head, noneLP_B, noneLP_res, noneLP_closing, noneLP_ready, noneLP_val, noneLP_own, noneLP_head, ite_linz_B, ite_linz_res, ite_linz_closing, ite_linz_ready, ite_linz_val, ite_linz_own, ite_linz_head] | skip) <;> grind
    case pre =>
-     clearIf nSB nUaf nDf nPn A_hl A_lr A_lc A_helped A_rdy psetA waitA psetB hbT geo fresh tw nbv pidxA cl1 cl2 cl3 pset pcas cAl cWt cLk cTl refR unl lnk rdyR valR hd hb1 hb2 hb3 anh lHb lPi lCi lFast lStore lCopy lHead dE dF1 df2a df2b df3 dT dEf oldR1 oldR2 liveR ainv sim hA' hsim hx1 hx2 hx3 hx4 hx5 hx6 hx7
+     clearIf nSB nUaf nDf nPn A_hl A_lr A_lc A_helped A_rdy psetA waitA psetB hbT geo fresh tw nbv pidxA cl1 cl2 cl3 pset psv psU pcas cAl cWt cLk cTl refR unl lnk rdyR valR hd hb1 hb2 hb3 anh lHb lPi lCi lFast lStore lCopy lRd lHead dE dF1 df2a df2b df3 dT dEf oldR1 oldR2 liveR ainv sim hA' hsim hx1 hx2 hx3 hx4 hx5 hx6 hx7
      (first | simp only [nextSt, clo, hu0, touch, alloc, free, proj, linz_B, linz_res, linz_closing, linz_ready, linz_val, linz_own, linz_head, take_B, take_res, take_closing, take_ready, take_val, take_own, take_head, noneLP_B, noneLP_res, noneLP_closing, noneLP_ready, noneLP_val, noneLP_own, noneLP_head, ite_linz_B, ite_linz_res, ite_linz_closing, ite_linz_ready, ite_linz_val, ite_linz_own, ite_linz_head] | skip) <;> grind
    case pre0 =>
-     clearIf nSB nUaf nDf nPn A_hl A_lr A_lc A_helped A_rdy psetA waitA psetB hbT geo fresh tw nbv pidxA cl1 cl2 cl3 pset pcas cAl cWt cLk cTl refR unl lnk rdyR valR hd hb1 hb2 hb3 anh lHb lPi lCi lFast lStore lCopy lHead dE dF1 df2a df2b df3 dT dEf oldR1 oldR2 liveR ainv sim hA' hsim hx1 hx2 hx3 hx4 hx5 hx6 hx7
+     clearIf nSB nUaf nDf nPn A_hl A_lr A_lc A_helped A_rdy psetA waitA psetB hbT geo fresh tw nbv pidxA cl1 cl2 cl3 pset psv psU pcas cAl cWt cLk cTl refR unl lnk rdyR valR hd hb1 hb2 hb3 anh lHb lPi lCi lFast lStore lCopy lRd lHead dE dF1 df2a df2b df3 dT dEf oldR1 oldR2 liveR ainv sim hA' hsim hx1 hx2 hx3 hx4 hx5 hx6 hx7
      (first | simp only [nextSt, clo, hu0, touch, alloc, free, proj, linz_B, linz_res, linz_closing, linz_ready, linz_val, linz_own, linz_head, take_B, take_res, take_closing, take_ready, take_val, take_own, take_head, noneLP_B, noneLP_res, noneLP_closing, noneLP_ready, noneLP_val, noneLP_own, noneLP_head, ite_linz_B, ite_linz_res, ite_linz_closing, ite_linz_ready, ite_linz_val, ite_linz_own, ite_linz_head] | skip) <;> grind
    case newc =>
-     clearIf nSB nUaf nDf nPn A_hl A_lr A_lc A_helped A_rdy psetA waitA psetB hbT geo fresh tw nbv pidxA cl1 cl2 cl3 pset pcas cAl cWt cLk cTl refR unl lnk rdyR valR hd hb1 hb2 hb3 anh lHb lPi lCi lFast lStore lCopy lHead dE dF1 df2a df2b df3 dT dEf oldR1 oldR2 liveR ainv sim hA' hsim hx1 hx2 hx3 hx4 hx5 hx6 hx7
+     clearIf nSB nUaf nDf nPn A_hl A_lr A_lc A_helped A_rdy psetA waitA psetB hbT geo fresh tw nbv pidxA cl1 cl2 cl3 pset psv psU pcas cAl cWt cLk cTl refR unl lnk rdyR valR hd hb1 hb2 hb3 anh lHb lPi lCi lFast lStore lCopy lRd lHead dE dF1 df2a df2b df3 dT dEf oldR1 oldR2 liveR ainv sim hA' hsim hx1 hx2 hx3 hx4 hx5 hx6 hx7
      (first | simp only [nextSt, clo, hu0, touch, alloc, free, proj, linz_B, linz_res, linz_closing, linz_ready, linz_val, linz_own, linz_head, take_B, take_res, take_closing, take_ready, take_val, take_own, take_head, noneLP_B, noneLP_res, noneLP_closing, noneLP_ready, noneLP_val, noneLP_own, noneLP_head, ite_linz_B, ite_linz_res, ite_linz_closing, ite_linz_ready, ite_linz_val, ite_linz_own, ite_linz_head] | skip) <;> grind
    case preA =>
-     clearIf nSB nUaf nDf nPn A_hl A_lr A_lc A_helped A_rdy psetA waitA psetB hbT geo fresh tw nbv pidxA cl1 cl2 cl3 pset pcas cAl cWt cLk cTl refR unl lnk rdyR valR hd hb1 hb2 hb3 anh lHb lPi lCi lFast lStore lCopy lHead dE dF1 df2a df2b df3 dT dEf oldR1 oldR2 liveR ainv sim hA' hsim hx1 hx2 hx3 hx4 hx5 hx6 hx7
+     clearIf nSB nUaf nDf nPn A_hl A_lr A_lc A_helped A_rdy psetA waitA psetB hbT geo fresh tw nbv pidxA cl1 cl2 cl3 pset psv psU pcas cAl cWt cLk cTl refR unl lnk rdyR valR hd hb1 hb2 hb3 anh lHb lPi lCi lFast lStore lCopy lRd lHead dE dF1 df2a df2b df3 dT dEf oldR1 oldR2 liveR ainv sim hA' hsim hx1 hx2 hx3 hx4 hx5 hx6 hx7
      (first | simp only [nextSt, clo, hu0, touch, alloc, free, proj, linz_B, linz_res, linz_closing, linz_ready, linz_val, linz_own, linz_head, take_B, take_res, take_closing, take_ready, take_val, take_own, take_head, noneLP_B, noneLP_res, noneLP_closing, noneLP_ready, noneLP_val, noneLP_own, noneLP_head, ite_linz_B, ite_linz_res, ite_linz_closing, ite_linz_ready, ite_linz_val, ite_linz_own, ite_linz_head] | skip) <;> grind
    case preR =>
-     clearIf nSB nUaf nDf nPn A_hl A_lr A_lc A_helped A_rdy psetA waitA psetB hbT geo fresh tw nbv pidxA cl1 cl2 cl3 pset pcas cAl cWt cLk cTl refR unl lnk rdyR valR hd hb1 hb2 hb3 anh lHb lPi lCi lFast lStore lCopy lHead dE dF1 df2a df2b df3 dT dEf oldR1 oldR2 liveR ainv sim hA' hsim hx1 hx2 hx3 hx4 hx5 hx6 hx7
+     clearIf nSB nUaf nDf nPn A_hl A_lr A_lc A_helped A_rdy psetA waitA psetB hbT geo fresh tw nbv pidxA cl1 cl2 cl3 pset psv psU pcas cAl cWt cLk cTl refR unl lnk rdyR valR hd hb1 hb2 hb3 anh lHb lPi lCi lFast lStore lCopy lRd lHead dE dF1 df2a df2b df3 dT dEf oldR1 oldR2 liveR ainv sim hA' hsim hx1 hx2 hx3 hx4 hx5 hx6 hx7
      (first | simp only [nextSt, clo, hu0, touch, alloc, free, proj, linz_B, linz_res, linz_closing, linz_ready, linz_val, linz_own, linz_head, take_B, take_res, take_closing, take_ready, take_val, take_own, take_head, noneLP_B, noneLP_res, noneLP_closing, noneLP_ready, noneLP_val, noneLP_own, noneLP_head, ite_linz_B, ite_linz_res, ite_linz_closing, ite_linz_ready, ite_linz_val, ite_linz_own, ite_linz_head] | skip) <;> grind
    case nb0 =>
-     clearIf nSB nUaf nDf nPn A_hl A_lr A_lc A_helped A_rdy psetA waitA psetB hbT geo fresh tw nbv pidxA cl1 cl2 cl3 pset pcas cAl cWt cLk cTl refR unl lnk rdyR valR hd hb1 hb2 hb3 anh lHb lPi lCi lFast lStore lCopy lHead dE dF1 df2a df2b df3 dT dEf oldR1 oldR2 liveR ainv sim hA' hsim hx1 hx2 hx3 hx4 hx5 hx6 hx7
+     clearIf nSB nUaf nDf nPn A_hl A_lr A_lc A_helped A_rdy psetA waitA psetB hbT geo fresh tw nbv pidxA cl1 cl2 cl3 pset psv psU pcas cAl cWt cLk cTl refR unl lnk rdyR valR hd hb1 hb2 hb3 anh lHb lPi lCi lFast lStore lCopy lRd lHead dE dF1 df2a df2b df3 dT dEf oldR1 oldR2 liveR ainv sim hA' hsim hx1 hx2 hx3 hx4 hx5 hx6 hx7
      (first | simp only [nextSt, clo, hu0, touch, alloc, free, proj, linz_B, linz_res, linz_closing, linz_ready, linz_val, linz_own, linz_head, take_B, take_res, take_closing, take_ready, take_val, take_own, take_head, noneLP_B, noneLP_res, noneLP_closing, noneLP_ready, noneLP_val, noneLP_own, noneLP_head, ite_linz_B, ite_linz_res, ite_linz_closing, ite_linz_ready, ite_linz_val, ite_linz_own, ite_linz_head] | skip) <;> grind
    case nb1 =>
-     clearIf nSB nUaf nDf nPn A_hl A_lr A_lc A_helped A_rdy psetA waitA psetB hbT tw nbv pidxA cl1 cl2 cl3 pset pcas cAl cWt cLk cTl refR unl lnk rdyR valR hd hb1 hb2 hb3 anh lHb lPi lCi lFast lStore lCopy lHead dE dF1 df2a df2b df3 dT dEf oldR1 oldR2 liveR ainv sim hA' hsim hx1 hx2 hx3 hx4 hx5 hx6 hx7
+     clearIf nSB nUaf nDf nPn A_hl A_lr A_lc A_helped A_rdy psetA waitA psetB hbT tw nbv pidxA cl1 cl2 cl3 pset psv psU pcas cAl cWt cLk cTl refR unl lnk rdyR valR hd hb1 hb2 hb3 anh lHb lPi lCi lFast lStore lCopy lRd lHead dE dF1 df2a df2b df3 dT dEf oldR1 oldR2 liveR ainv sim hA' hsim hx1 hx2 hx3 hx4 hx5 hx6 hx7
      (first | simp only [nextSt, clo, hu0, touch, alloc, free, proj, linz_B, linz_res, linz_closing, linz_ready, linz_val, linz_own, linz_head, take_B, take_res, take_closing, take_ready, take_val, take_own, take_head, noneLP_B, noneLP_res, noneLP_closing, noneLP_ready, noneLP_val, noneLP_own, noneLP_head, ite_linz_B, ite_linz_res, ite_linz_closing, ite_linz_ready, ite_linz_val, ite_linz_own, ite_linz_head] | skip) <;> grind
    case nb2 =>
-     clearIf nSB nUaf nDf nPn A_hl A_lr A_lc A_helped A_rdy psetA waitA psetB hbT tw nbv pidxA cl1 cl2 cl3 pset pcas cAl cWt cLk cTl refR unl lnk rdyR valR hd hb1 hb2 hb3 anh lHb lPi lCi lFast lStore lCopy lHead dE dF1 df2a df2b df3 dT dEf oldR1 oldR2 liveR ainv sim hA' hsim hx1 hx2 hx3 hx4 hx5 hx6 hx7
+     clearIf nSB nUaf nDf nPn A_hl A_lr A_lc A_helped A_rdy psetA waitA psetB hbT tw nbv pidxA cl1 cl2 cl3 pset psv psU pcas cAl cWt cLk cTl refR unl lnk rdyR valR hd hb1 hb2 hb3 anh lHb lPi lCi lFast lStore lCopy lRd lHead dE dF1 df2a df2b df3 dT dEf oldR1 oldR2 liveR ainv sim hA' hsim hx1 hx2 hx3 hx4 hx5 hx6 hx7
      (first | simp only [nextSt, clo, hu0, touch, alloc, free, proj, linz_B, linz_res, linz_closing, linz_ready, linz_val, linz_own, linz_head, take_B, take_res, take_closing, take_ready, take_val, take_own, take_head, noneLP_B, noneLP_res, noneLP_closing, noneLP_ready, noneLP_val, noneLP_own, noneLP_head, ite_linz_B, ite_linz_res, ite_linz_closing, ite_linz_ready, ite_linz_val, ite_linz_own, ite_linz_head] | skip) <;> grind
    case drp =>
-     clearIf nSB nUaf nDf nPn A_hl A_lr A_lc A_helped A_rdy psetA waitA psetB hbT geo fresh tw nbv pidxA cl1 cl2 cl3 pset pcas cAl cWt cLk cTl refR unl lnk rdyR valR hd hb1 hb2 hb3 anh lHb lPi lCi lFast lStore lCopy lHead dE dF1 df2a df2b df3 dT dEf oldR1 oldR2 liveR ainv sim hA' hsim
+     clearIf nSB nUaf nDf nPn A_hl A_lr A_lc A_helped A_rdy psetA waitA psetB hbT geo fresh tw nbv pidxA cl1 cl2 cl3 pset psv psU pcas cAl cWt cLk cTl refR unl lnk rdyR valR hd hb1 hb2 hb3 anh lHb lPi lCi lFast lStore lCopy lRd lHead dE dF1 df2a df2b df3 dT dEf oldR1 oldR2 liveR ainv sim hA' hsim
      (first | simp only [nextSt, clo, hu0, touch, alloc, free, proj, linz_B, linz_res, linz_closing, linz_ready, linz_val, linz_own, linz_head, take_B, take_res, take_closing, take_ready, take_val, take_own, take_head, noneLP_B, noneLP_res, noneLP_closing, noneLP_ready, noneLP_val, noneLP_own, noneLP_head, ite_linz_B, ite_linz_res, ite_linz_closing, ite_linz_ready, ite_linz_val, ite_linz_own, ite_linz_head] | skip) <;> grind
    case dfl =>
-     clearIf nSB nUaf nDf nPn A_hl A_lr A_lc A_helped A_rdy psetA waitA psetB hbT geo fresh tw nbv pidxA cl1 cl2 cl3 pset pcas cAl cWt cLk cTl refR unl lnk rdyR valR hd hb1 hb2 hb3 anh lHb lPi lCi lFast lStore lCopy lHead dE dF1 df2a df2b df3 dT dEf oldR1 oldR2 liveR ainv sim hA' hsim hx1 hx2 hx3 hx4 hx5 hx6 hx7
+     clearIf nSB nUaf nDf nPn A_hl A_lr A_lc A_helped A_rdy psetA waitA psetB hbT geo fresh tw nbv pidxA cl1 cl2 cl3 pset psv psU pcas cAl cWt cLk cTl refR unl lnk rdyR valR hd hb1 hb2 hb3 anh lHb lPi lCi lFast lStore lCopy lRd lHead dE dF1 df2a df2b df3 dT dEf oldR1 oldR2 liveR ainv sim hA' hsim hx1 hx2 hx3 hx4 hx5 hx6 hx7
      (first | simp only [nextSt, clo, hu0, touch, alloc, free, proj, linz_B, linz_res, linz_closing, linz_ready, linz_val, linz_own, linz_head, take_B, take_res, take_closing, take_ready, take_val, take_own, take_head, noneLP_B, noneLP_res, noneLP_closing, noneLP_ready, noneLP_val, noneLP_own, noneLP_head, ite_linz_B, ite_linz_res, ite_linz_closing, ite_linz_ready, ite_linz_val, ite_linz_own, ite_linz_head] | skip) <;> grind
    case geo =>
-     clearIf nSB nUaf nDf nPn A_hl A_lr A_lc A_helped A_rdy psetA waitA psetB hbT lnk rdyR valR hd hb1 hb2 hb3 anh lHb lPi lCi lFast lStore lCopy lHead dE dF1 df2a df2b df3 dT dEf oldR1 oldR2 liveR ainv sim hA' hsim hx1 hx2 hx3 hx4 hx5 hx6 hx7
+     clearIf nSB nUaf nDf nPn A_hl A_lr A_lc A_helped A_rdy psetA waitA psetB hbT lnk rdyR valR hd hb1 hb2 hb3 anh lHb lPi lCi lFast lStore lCopy lRd lHead dE dF1 df2a df2b df3 dT dEf oldR1 oldR2 liveR ainv sim hA' hsim hx1 hx2 hx3 hx4 hx5 hx6 hx7
      (first | simp only [nextSt, clo, hu0, touch, alloc, free, proj, linz_B, linz_res, linz_closing, linz_ready, linz_val, linz_own, linz_head, take_B, take_res, take_closing, take_ready, take_val, take_own, take_head, noneLP_B, noneLP_res, noneLP_closing, noneLP_ready, noneLP_val, noneLP_own, noneLP_head, ite_linz_B, ite_linz_res, ite_linz_closing, ite_linz_ready, ite_linz_val, ite_linz_own, ite_linz_head] | skip) <;> grind
    case fresh =>
-     clearIf nSB nUaf nDf nPn A_hl A_lr A_lc A_helped A_rdy psetA waitA psetB hbT tw nbv pidxA cl1 cl2 cl3 pset pcas cAl cWt cLk cTl refR unl lnk rdyR valR hd hb1 hb2 hb3 anh lHb lPi lCi lFast lStore lCopy lHead dE dF1 df2a df2b df3 dT dEf oldR1 oldR2 liveR ainv sim hA' hsim hx1 hx2 hx3 hx4 hx5 hx6 hx7
+     clearIf nSB nUaf nDf nPn A_hl A_lr A_lc A_helped A_rdy psetA waitA psetB hbT tw nbv pidxA cl1 cl2 cl3 pset psv psU pcas cAl cWt cLk cTl refR unl lnk rdyR valR hd hb1 hb2 hb3 anh lHb lPi lCi lFast lStore lCopy lRd lHead dE dF1 df2a df2b df3 dT dEf oldR1 oldR2 liveR ainv sim hA' hsim hx1 hx2 hx3 hx4 hx5 hx6 hx7
      (first | simp only [nextSt, clo, hu0, touch, alloc, free, proj, linz_B, linz_res, linz_closing, linz_ready, linz_val, linz_own, linz_head, take_B, take_res, take_closing, take_ready, take_val, take_own, take_head, noneLP_B, noneLP_res, noneLP_closing, noneLP_ready, noneLP_val, noneLP_own, noneLP_head, ite_linz_B, ite_linz_res, ite_linz_closing, ite_linz_ready, ite_linz_val, ite_linz_own, ite_linz_head] | skip) <;> grind
    case tw =>
-     clearIf nSB nUaf nDf nPn lnk rdyR valR hd hb1 hb2 hb3 anh lHb lPi lCi lFast lStore lCopy lHead dE dF1 df2a df2b df3 dT dEf oldR1 oldR2 liveR ainv sim hA' hsim hx1 hx2 hx3 hx4 hx5 hx6 hx7
+     clearIf nSB nUaf nDf nPn lnk rdyR valR hd hb1 hb2 hb3 anh lHb lPi lCi lFast lStore lCopy lRd lHead dE dF1 df2a df2b df3 dT dEf oldR1 oldR2 liveR ainv sim hA' hsim hx1 hx2 hx3 hx4 hx5 hx6 hx7
      (first | simp only [nextSt, clo, hu0, touch, alloc, free, proj, linz_B, linz_res, linz_closing, linz_ready, linz_val, linz_own, linz_head, take_B, take_res, take_closing, take_ready, take_val, take_own, take_head, noneLP_B, noneLP_res, noneLP_closing, noneLP_ready, noneLP_val, noneLP_own, noneLP_head, ite_linz_B, ite_linz_res, ite_linz_closing, ite_linz_ready, ite_linz_val, ite_linz_own, ite_linz_head] | skip) <;> grind
    case nbv =>
-     clearIf nSB nUaf nDf nPn psetA waitA psetB hbT geo fresh lnk rdyR valR hd hb1 hb2 hb3 anh lHb lPi lCi lFast lStore lCopy lHead dE dF1 df2a df2b df3 dT dEf oldR1 oldR2 liveR ainv sim hA' hsim hx1 hx2 hx3 hx4 hx5 hx6 hx7
+     clearIf nSB nUaf nDf nPn psetA waitA psetB hbT geo fresh lnk rdyR valR hd hb1 hb2 hb3 anh lHb lPi lCi lFast lStore lCopy lRd lHead dE dF1 df2a df2b df3 dT dEf oldR1 oldR2 liveR ainv sim hA' hsim hx1 hx2 hx3 hx4 hx5 hx6 hx7
      (first | simp only [nextSt, clo, hu0, touch, alloc, free, proj, linz_B, linz_res, linz_closing, linz_ready, linz_val, linz_own, linz_head, take_B, take_res, take_closing, take_ready, take_val, take_own, take_head, noneLP_B, noneLP_res, noneLP_closing, noneLP_ready, noneLP_val, noneLP_own, noneLP_head, ite_linz_B, ite_linz_res, ite_linz_closing, ite_linz_ready, ite_linz_val, ite_linz_own, ite_linz_head] | skip) <;> grind
    case cl1 =>
-     clearIf nSB nUaf nDf nPn psetA waitA psetB hbT rdyR valR hd hb1 hb2 hb3 anh lHb lPi lCi lFast lStore lCopy lHead dE dF1 df2a df2b df3 dT dEf oldR1 oldR2 liveR ainv sim hA' hsim hx1 hx2 hx3 hx4 hx5 hx6 hx7
+     clearIf nSB nUaf nDf nPn psetA waitA psetB hbT rdyR valR hd hb1 hb2 hb3 anh lHb lPi lCi lFast lStore lCopy lRd lHead dE dF1 df2a df2b df3 dT dEf oldR1 oldR2 liveR ainv sim hA' hsim hx1 hx2 hx3 hx4 hx5 hx6 hx7
      (first | simp only [nextSt, clo, hu0, touch, alloc, free, proj, linz_B, linz_res, linz_closing, linz_ready, linz_val, linz_own, linz_head, take_B, take_res, take_closing, take_ready, take_val, take_own, take_head, noneLP_B, noneLP_res, noneLP_closing, noneLP_ready, noneLP_val, noneLP_own, noneLP_head, ite_linz_B, ite_linz_res, ite_linz_closing, ite_linz_ready, ite_linz_val, ite_linz_own, ite_linz_head] | skip) <;> grind
    case cl2 =>
-     clearIf nSB nUaf nDf nPn psetA waitA psetB hbT rdyR valR hd hb1 hb2 hb3 anh lHb lPi lCi lFast lStore lCopy lHead dE dF1 df2a df2b df3 dT dEf oldR1 oldR2 liveR ainv sim hA' hsim hx1 hx2 hx3 hx4 hx5 hx6 hx7
+     clearIf nSB nUaf nDf nPn psetA waitA psetB hbT rdyR valR hd hb1 hb2 hb3 anh lHb lPi lCi lFast lStore lCopy lRd lHead dE dF1 df2a df2b df3 dT dEf oldR1 oldR2 liveR ainv sim hA' hsim hx1 hx2 hx3 hx4 hx5 hx6 hx7
      (first | simp only [nextSt, clo, hu0, touch, alloc, free, proj, linz_B, linz_res, linz_closing, linz_ready, linz_val, linz_own, linz_head, take_B, take_res, take_closing, take_ready, take_val, take_own, take_head, noneLP_B, noneLP_res, noneLP_closing, noneLP_ready, noneLP_val, noneLP_own, noneLP_head, ite_linz_B, ite_linz_res, ite_linz_closing, ite_linz_ready, ite_linz_val, ite_linz_own, ite_linz_head] | skip) <;> grind
    case cl3 =>
-     clearIf nSB nUaf nDf nPn psetA waitA psetB hbT rdyR valR hd hb1 hb2 hb3 anh lHb lPi lCi lFast lStore lCopy lHead dE dF1 df2a df2b df3 dT dEf oldR1 oldR2 liveR ainv sim hA' hsim hx1 hx2 hx3 hx4 hx5 hx6 hx7
+     clearIf nSB nUaf nDf nPn psetA waitA psetB hbT rdyR valR hd hb1 hb2 hb3 anh lHb lPi lCi lFast lStore lCopy lRd lHead dE dF1 df2a df2b df3 dT dEf oldR1 oldR2 liveR ainv sim hA' hsim hx1 hx2 hx3 hx4 hx5 hx6 hx7
      (first | simp only [nextSt, clo, hu0, touch, alloc, free, proj, linz_B, linz_res, linz_closing, linz_ready, linz_val, linz_own, linz_head, take_B, take_res, take_closing, take_ready, take_val, take_own, take_head, noneLP_B, noneLP_res, noneLP_closing, noneLP_ready, noneLP_val, noneLP_own, noneLP_head, ite_linz_B, ite_linz_res, ite_linz_closing, ite_linz_ready, ite_linz_val, ite_linz_own, ite_linz_head] | skip) <;> grind
    case pset =>
-     clearIf nSB nUaf nDf nPn psetA waitA psetB hbT rdyR valR hd hb1 hb2 hb3 anh lHb lPi lCi lFast lStore lCopy lHead dE dF1 df2a df2b df3 dT dEf oldR1 oldR2 liveR ainv sim hA' hsim hx1 hx2 hx3 hx4 hx5 hx6 hx7
+     clearIf nSB nUaf nDf nPn psetA waitA psetB hbT rdyR valR hd hb1 hb2 hb3 anh lHb lPi lCi lFast lStore lCopy lRd lHead dE dF1 df2a df2b df3 dT dEf oldR1 oldR2 liveR ainv sim hA' hsim hx1 hx2 hx3 hx4 hx5 hx6 hx7
+     (first | simp only [nextSt, clo, hu0, touch, alloc, free, proj, linz_B, linz_res, linz_closing, linz_ready, linz_val, linz_own, linz_head, take_B, take_res, take_closing, take_ready, take_val, take_own, take_head, noneLP_B, noneLP_res, noneLP_closing, noneLP_ready, noneLP_val, noneLP_own, noneLP_head, ite_linz_B, ite_linz_res, ite_linz_closing, ite_linz_ready, ite_linz_val, ite_linz_own, ite_linz_head] | skip) <;> grind
+   case psv =>
+     clearIf nSB nUaf nDf nPn psetA waitA psetB hbT rdyR valR hd hb1 hb2 hb3 anh lHb lPi lCi lFast lStore lCopy lRd lHead dE dF1 df2a df2b df3 dT dEf oldR1 oldR2 liveR ainv sim hA' hsim hx1 hx2 hx3 hx4 hx5 hx6 hx7
      (first | simp only [nextSt, clo, hu0, touch, alloc, free, proj, linz_B, linz_res, linz_closing, linz_ready, linz_val, linz_own, linz_head, take_B, take_res, take_closing, take_ready, take_val, take_own, take_head, noneLP_B, noneLP_res, noneLP_closing, noneLP_ready, noneLP_val, noneLP_own, noneLP_head, ite_linz_B, ite_linz_res, ite_linz_closing, ite_linz_ready, ite_linz_val, ite_linz_own, ite_linz_head] | skip) <;> grind
    case pcas =>
-     clearIf nSB nUaf nDf nPn psetA waitA psetB hbT rdyR valR hd hb1 hb2 hb3 anh lHb lPi lCi lFast lStore lCopy lHead dE dF1 df2a df2b df3 dT dEf oldR1 oldR2 liveR ainv sim hA' hsim hx1 hx2 hx3 hx4 hx5 hx6 hx7
+     clearIf nSB nUaf nDf nPn psetA waitA psetB hbT rdyR valR hd hb1 hb2 hb3 anh lHb lPi lCi lFast lStore lCopy lRd lHead dE dF1 df2a df2b df3 dT dEf oldR1 oldR2 liveR ainv sim hA' hsim hx1 hx2 hx3 hx4 hx5 hx6 hx7
      (first | simp only [nextSt, clo, hu0, touch, alloc, free, proj, linz_B, linz_res, linz_closing, linz_ready, linz_val, linz_own, linz_head, take_B, take_res, take_closing, take_ready, take_val, take_own, take_head, noneLP_B, noneLP_res, noneLP_closing, noneLP_ready, noneLP_val, noneLP_own, noneLP_head, ite_linz_B, ite_linz_res, ite_linz_closing, ite_linz_ready, ite_linz_val, ite_linz_own, ite_linz_head] | skip) <;> grind
    case cAl =>
-     clearIf nSB nUaf nDf nPn psetA waitA psetB hbT rdyR valR hd hb1 hb2 hb3 anh lHb lPi lCi lFast lStore lCopy lHead dE dF1 df2a df2b df3 dT dEf oldR1 oldR2 liveR ainv sim hA' hsim hx1 hx2 hx3 hx4 hx5 hx6 hx7
+     clearIf nSB nUaf nDf nPn psetA waitA psetB hbT rdyR valR hd hb1 hb2 hb3 anh lHb lPi lCi lFast lStore lCopy lRd lHead dE dF1 df2a df2b df3 dT dEf oldR1 oldR2 liveR ainv sim hA' hsim hx1 hx2 hx3 hx4 hx5 hx6 hx7
      (first | simp only [nextSt, clo, hu0, touch, alloc, free, proj, linz_B, linz_res, linz_closing, linz_ready, linz_val, linz_own, linz_head, take_B, take_res, take_closing, take_ready, take_val, take_own, take_head, noneLP_B, noneLP_res, noneLP_closing, noneLP_ready, noneLP_val, noneLP_own, noneLP_head, ite_linz_B, ite_linz_res, ite_linz_closing, ite_linz_ready, ite_linz_val, ite_linz_own, ite_linz_head] | skip) <;> grind
    case cWt =>
-     clearIf nSB nUaf nDf nPn psetA waitA psetB hbT rdyR valR hd hb1 hb2 hb3 anh lHb lPi lCi lFast lStore lCopy lHead dE dF1 df2a df2b df3 dT dEf oldR1 oldR2 liveR ainv sim hA' hsim hx1 hx2 hx3 hx4 hx5 hx6 hx7
+     clearIf nSB nUaf nDf nPn psetA waitA psetB hbT rdyR valR hd hb1 hb2 hb3 anh lHb lPi lCi lFast lStore lCopy lRd lHead dE dF1 df2a df2b df3 dT dEf oldR1 oldR2 liveR ainv sim hA' hsim hx1 hx2 hx3 hx4 hx5 hx6 hx7
      (first | simp only [nextSt, clo, hu0, touch, alloc, free, proj, linz_B, linz_res, linz_closing, linz_ready, linz_val, linz_own, linz_head, take_B, take_res, take_closing, take_ready, take_val, take_own, take_head, noneLP_B, noneLP_res, noneLP_closing, noneLP_ready, noneLP_val, noneLP_own, noneLP_head, ite_linz_B, ite_linz_res, ite_linz_closing, ite_linz_ready, ite_linz_val, ite_linz_own, ite_linz_head] | skip) <;> grind
    case cLk =>
-     clearIf nSB nUaf nDf nPn psetA waitA psetB hbT rdyR valR hd hb1 hb2 hb3 anh lHb lPi lCi lFast lStore lCopy lHead dE dF1 df2a df2b df3 dT dEf oldR1 oldR2 liveR ainv sim hA' hsim hx1 hx2 hx3 hx4 hx5 hx6 hx7
+     clearIf nSB nUaf nDf nPn psetA waitA psetB hbT rdyR valR hd hb1 hb2 hb3 anh lHb lPi lCi lFast lStore lCopy lRd lHead dE dF1 df2a df2b df3 dT dEf oldR1 oldR2 liveR ainv sim hA' hsim hx1 hx2 hx3 hx4 hx5 hx6 hx7
      (first | simp only [nextSt, clo, hu0, touch, alloc, free, proj, linz_B, linz_res, linz_closing, linz_ready, linz_val, linz_own, linz_head, take_B, take_res, take_closing, take_ready, take_val, take_own, take_head, noneLP_B, noneLP_res, noneLP_closing, noneLP_ready, noneLP_val, noneLP_own, noneLP_head, ite_linz_B, ite_linz_res, ite_linz_closing, ite_linz_ready, ite_linz_val, ite_linz_own, ite_linz_head] | skip) <;> grind
    case cTl =>
-     clearIf nSB nUaf nDf nPn psetA waitA psetB hbT rdyR valR hd hb1 hb2 hb3 anh lHb lPi lCi lFast lStore lCopy lHead dE dF1 df2a df2b df3 dT dEf oldR1 oldR2 liveR ainv sim hA' hsim hx1 hx2 hx3 hx4 hx5 hx6 hx7
+     clearIf nSB nUaf nDf nPn psetA waitA psetB hbT rdyR valR hd hb1 hb2 hb3 anh lHb lPi lCi lFast lStore lCopy lRd lHead dE dF1 df2a df2b df3 dT dEf oldR1 oldR2 liveR ainv sim hA' hsim hx1 hx2 hx3 hx4 hx5 hx6 hx7
      (first | simp only [nextSt, clo, hu0, touch, alloc, free, proj, linz_B, linz_res, linz_closing, linz_ready, linz_val, linz_own, linz_head, take_B, take_res, take_closing, take_ready, take_val, take_own, take_head, noneLP_B, noneLP_res, noneLP_closing, noneLP_ready, noneLP_val, noneLP_own, noneLP_head, ite_linz_B, ite_linz_res, ite_linz_closing, ite_linz_ready, ite_linz_val, ite_linz_own, ite_linz_head] | skip) <;> grind
    case lnk =>
-     clearIf nSB nUaf nDf nPn A_hl A_lr A_lc A_helped A_rdy psetA waitA psetB hbT rdyR valR hd hb1 hb2 hb3 anh lHb lPi lCi lFast lStore lCopy lHead dE dF1 df2a df2b df3 dT dEf oldR1 oldR2 liveR ainv sim hA' hsim hx1 hx2 hx3 hx4 hx5 hx6 hx7
+     clearIf nSB nUaf nDf nPn A_hl A_lr A_lc A_helped A_rdy psetA waitA psetB hbT rdyR valR hd hb1 hb2 hb3 anh lHb lPi lCi lFast lStore lCopy lRd lHead dE dF1 df2a df2b df3 dT dEf oldR1 oldR2 liveR ainv sim hA' hsim hx1 hx2 hx3 hx4 hx5 hx6 hx7
      (first | simp only [nextSt, clo, hu0, touch, alloc, free, proj, linz_B, linz_res, linz_closing, linz_ready, linz_val, linz_own, linz_head, take_B, take_res, take_closing, take_ready, take_val, take_own, take_head, noneLP_B, noneLP_res, noneLP_closing, noneLP_ready, noneLP_val, noneLP_own, noneLP_head, ite_linz_B, ite_linz_res, ite_linz_closing, ite_linz_ready, ite_linz_val, ite_linz_own, ite_linz_head] | skip) <;> grind
    case rdyR =>
-     clearIf nSB nUaf nDf nPn geo fresh tw nbv pidxA lnk hd hb1 hb2 hb3 anh lHb lPi lCi lFast lStore lCopy lHead dE dF1 df2a df2b df3 dT dEf oldR1 oldR2 liveR ainv sim hA' hsim
+     clearIf nSB nUaf nDf nPn geo fresh tw nbv pidxA lnk hd hb1 hb2 hb3 anh lHb lPi lCi lFast lStore lCopy lRd lHead dE dF1 df2a df2b df3 dT dEf oldR1 oldR2 liveR ainv sim hA' hsim
      (first | simp only [nextSt, clo, hu0, touch, alloc, free, proj, linz_B, linz_res, linz_closing, linz_ready, linz_val, linz_own, linz_head, take_B, take_res, take_closing, take_ready, take_val, take_own, take_head, noneLP_B, noneLP_res, noneLP_closing, noneLP_ready, noneLP_val, noneLP_own, noneLP_head, ite_linz_B, ite_linz_res, ite_linz_closing, ite_linz_ready, ite_linz_val, ite_linz_own, ite_linz_head] | skip) <;> grind
    case valR =>
-     clearIf nSB nUaf nDf nPn geo fresh tw nbv pidxA lnk hd hb1 hb2 hb3 anh lHb lPi lCi lFast lStore lCopy lHead dE dF1 df2a df2b df3 dT dEf oldR1 oldR2 liveR ainv sim hA' hsim
+     clearIf nSB nUaf nDf nPn geo fresh tw nbv pidxA lnk hd hb1 hb2 hb3 anh lHb lPi lCi lFast lStore lCopy lRd lHead dE dF1 df2a df2b df3 dT dEf oldR1 oldR2 liveR ainv sim hA' hsim
      (first | simp only [nextSt, clo, hu0, touch, alloc, free, proj, linz_B, linz_res, linz_closing, linz_ready, linz_val, linz_own, linz_head, take_B, take_res, take_closing, take_ready, take_val, take_own, take_head, noneLP_B, noneLP_res, noneLP_closing, noneLP_ready, noneLP_val, noneLP_own, noneLP_head, ite_linz_B, ite_linz_res, ite_linz_closing, ite_linz_ready, ite_linz_val, ite_linz_own, ite_linz_head] | skip) <;> grind
    case hd =>
-     clearIf nSB nUaf nDf nPn A_hl A_lr A_lc A_helped A_rdy psetA waitA psetB hbT geo fresh tw nbv pidxA cl1 cl2 cl3 pset pcas cAl cWt cLk cTl refR unl lnk rdyR valR dE dF1 df2a df2b df3 dT dEf oldR1 oldR2 liveR ainv sim hA' hsim
+     clearIf nSB nUaf nDf nPn A_hl A_lr A_lc A_helped A_rdy psetA waitA psetB hbT geo fresh tw nbv pidxA cl1 cl2 cl3 pset psv psU pcas cAl cWt cLk cTl refR unl lnk rdyR valR dE dF1 df2a df2b df3 dT dEf oldR1 oldR2 liveR ainv sim hA' hsim
      (first | simp only [nextSt, clo, hu0, touch, alloc, free, proj, linz_B, linz_res, linz_closing, linz_ready, linz_val, linz_own, linz_head, take_B, take_res, take_closing, take_ready, take_val, take_own, take_head, noneLP_B, noneLP_res, noneLP_closing, noneLP_ready, noneLP_val, noneLP_own, noneLP_head, ite_linz_B, ite_linz_res, ite_linz_closing, ite_linz_ready, ite_linz_val, ite_linz_own, ite_linz_head] | skip) <;> grind
    case hb1 =>
-     clearIf nSB nUaf nDf nPn A_hl A_lr A_lc A_helped A_rdy psetA waitA psetB hbT geo fresh tw nbv pidxA cl1 cl2 cl3 pset pcas cAl cWt cLk cTl refR unl lnk rdyR valR dE dF1 df2a df2b df3 dT dEf oldR1 oldR2 liveR ainv sim hA' hsim
+     clearIf nSB nUaf nDf nPn A_hl A_lr A_lc A_helped A_rdy psetA waitA psetB hbT geo fresh tw nbv pidxA cl1 cl2 cl3 pset psv psU pcas cAl cWt cLk cTl refR unl lnk rdyR valR dE dF1 df2a df2b df3 dT dEf oldR1 oldR2 liveR ainv sim hA' hsim
      (first | simp only [nextSt, clo, hu0, touch, alloc, free, proj, linz_B, linz_res, linz_closing, linz_ready, linz_val, linz_own, linz_head, take_B, take_res, take_closing, take_ready, take_val, take_own, take_head, noneLP_B, noneLP_res, noneLP_closing, noneLP_ready, noneLP_val, noneLP_own, noneLP_head, ite_linz_B, ite_linz_res, ite_linz_closing, ite_linz_ready, ite_linz_val, ite_linz_own, ite_linz_head] | skip) <;> grind
    case hb2 =>
-     clearIf nSB nUaf nDf nPn A_hl A_lr A_lc A_helped A_rdy psetA waitA psetB hbT geo fresh tw nbv pidxA cl1 cl2 cl3 pset pcas cAl cWt cLk cTl refR unl lnk rdyR valR dE dF1 df2a df2b df3 dT dEf oldR1 oldR2 liveR ainv sim hA' hsim
+     clearIf nSB nUaf nDf nPn A_hl A_lr A_lc A_helped A_rdy psetA waitA psetB hbT geo fresh tw nbv pidxA cl1 cl2 cl3 pset psv psU pcas cAl cWt cLk cTl refR unl lnk rdyR valR dE dF1 df2a df2b df3 dT dEf oldR1 oldR2 liveR ainv sim hA' hsim
      (first | simp only [nextSt, clo, hu0, touch, alloc, free, proj, linz_B, linz_res, linz_closing, linz_ready, linz_val, linz_own, linz_head, take_B, take_res, take_closing, take_ready, take_val, take_own, take_head, noneLP_B, noneLP_res, noneLP_closing, noneLP_ready, noneLP_val, noneLP_own, noneLP_head, ite_linz_B, ite_linz_res, ite_linz_closing, ite_linz_ready, ite_linz_val, ite_linz_own, ite_linz_head] | skip) <;> grind
    case hb3 =>
-     clearIf nSB nUaf nDf nPn A_hl A_lr A_lc A_helped A_rdy psetA waitA psetB hbT geo fresh tw nbv pidxA cl1 cl2 cl3 pset pcas cAl cWt cLk cTl refR unl lnk rdyR valR dE dF1 df2a df2b df3 dT dEf oldR1 oldR2 liveR ainv sim hA' hsim
+     clearIf nSB nUaf nDf nPn A_hl A_lr A_lc A_helped A_rdy psetA waitA psetB hbT geo fresh tw nbv pidxA cl1 cl2 cl3 pset psv psU pcas cAl cWt cLk cTl refR unl lnk rdyR valR dE dF1 df2a df2b df3 dT dEf oldR1 oldR2 liveR ainv sim hA' hsim
      (first | simp only [nextSt, clo, hu0, touch, alloc, free, proj, linz_B, linz_res, linz_closing, linz_ready, linz_val, linz_own, linz_head, take_B, take_res, take_closing, take_ready, take_val, take_own, take_head, noneLP_B, noneLP_res, noneLP_closing, noneLP_ready, noneLP_val, noneLP_own, noneLP_head, ite_linz_B, ite_linz_res, ite_linz_closing, ite_linz_ready, ite_linz_val, ite_linz_own, ite_linz_head] | skip) <;> grind
    case lHb =>
      clearIf nSB nUaf nDf nPn geo fresh rdyR valR oldR1 oldR2 liveR ainv sim hA' hsim
@@ -206,11 +209,14 @@ macro "bfin" tt:term : tactic => `(tactic|
    case lCopy =>
      clearIf nSB nUaf nDf nPn geo fresh rdyR valR oldR1 oldR2 liveR ainv sim hA' hsim
      (first | simp only [nextSt, clo, hu0, touch, alloc, free, proj, linz_B, linz_res, linz_closing, linz_ready, linz_val, linz_own, linz_head, take_B, take_res, take_closing, take_ready, take_val, take_own, take_head, noneLP_B, noneLP_res, noneLP_closing, noneLP_ready, noneLP_val, noneLP_own, noneLP_head, ite_linz_B, ite_linz_res, ite_linz_closing, ite_linz_ready, ite_linz_val, ite_linz_own, ite_linz_head] | skip) <;> grind
+   case lRd =>
+     clearIf nSB nUaf nDf nPn geo fresh rdyR valR oldR1 oldR2 liveR ainv sim hA' hsim
+     (first | simp only [nextSt, clo, hu0, touch, alloc, free, proj, linz_B, linz_res, linz_closing, linz_ready, linz_val, linz_own, linz_head, take_B, take_res, take_closing, take_ready, take_val, take_own, take_head, noneLP_B, noneLP_res, noneLP_closing, noneLP_ready, noneLP_val, noneLP_own, noneLP_head, ite_linz_B, ite_linz_res, ite_linz_closing, ite_linz_ready, ite_linz_val, ite_linz_own, ite_linz_head] | skip) <;> grind
    case lHead =>
      clearIf nSB nUaf nDf nPn geo fresh rdyR valR oldR1 oldR2 liveR ainv sim hA' hsim
      (first | simp only [nextSt, clo, hu0, touch, alloc, free, proj, linz_B, linz_res, linz_closing, linz_ready, linz_val, linz_own, linz_head, take_B, take_res, take_closing, take_ready, take_val, take_own, take_head, noneLP_B, noneLP_res, noneLP_closing, noneLP_ready, noneLP_val, noneLP_own, noneLP_head, ite_linz_B, ite_linz_res, ite_linz_closing, ite_linz_ready, ite_linz_val, ite_linz_own, ite_linz_head] | skip) <;> grind
    case dE =>
-     clearIf nSB nUaf nDf nPn psetA waitA psetB hbT geo fresh lnk rdyR valR lHb lPi lCi lFast lStore lCopy lHead oldR1 oldR2 liveR ainv sim hA' hsim hx1 hx2 hx3 hx4 hx5 hx6 hx7
+     clearIf nSB nUaf nDf nPn psetA waitA psetB hbT geo fresh lnk rdyR valR lHb lPi lCi lFast lStore lCopy lRd lHead oldR1 oldR2 liveR ainv sim hA' hsim hx1 hx2 hx3 hx4 hx5 hx6 hx7
      (first | simp only [nextSt, clo, hu0, touch, alloc, free, proj, linz_B, linz_res, linz_closing, linz_ready, linz_val, linz_own, linz_head, take_B, take_res, take_closing, take_ready, take_val, take_own, take_head, noneLP_B, noneLP_res, noneLP_closing, noneLP_ready, noneLP_val, noneLP_own, noneLP_head, ite_linz_B, ite_linz_res, ite_linz_closing, ite_linz_ready, ite_linz_val, ite_linz_own, ite_linz_head] | skip) <;> grind
    case dF1 =>
      clearIf nSB nUaf nDf nPn A_hl A_lr A_lc A_helped A_rdy psetA waitA psetB hbT geo fresh rdyR valR oldR1 oldR2 liveR ainv sim hA' hsim hx1 hx2 hx3 hx4 hx5 hx6 hx7
@@ -239,10 +245,10 @@ set_option hygiene false in
 macro "bfinNoSlot" tt:term : tactic => `(tactic|
   (skip
    case aB =>
-     clearIf nSB nUaf nDf nPn A_hl A_lr A_lc A_helped A_rdy psetA waitA psetB hbT idleN cons0 alc pre pre0 newc preA preR nb0 nb1 nb2 drp dfl geo fresh tw nbv pidxA cl1 cl2 cl3 pset pcas cAl cWt cLk cTl refR unl lnk rdyR valR hd hb1 hb2 hb3 anh lHb lPi lCi lFast lStore lCopy lHead dE dF1 df2a df2b df3 dT dEf oldR1 oldR2 liveR ainv sim hA' hsim hx1 hx2 hx3 hx4 hx5 hx6 hx7
+     clearIf nSB nUaf nDf nPn A_hl A_lr A_lc A_helped A_rdy psetA waitA psetB hbT idleN cons0 alc pre pre0 newc preA preR nb0 nb1 nb2 drp dfl geo fresh tw nbv pidxA cl1 cl2 cl3 pset psv psU pcas cAl cWt cLk cTl refR unl lnk rdyR valR hd hb1 hb2 hb3 anh lHb lPi lCi lFast lStore lCopy lRd lHead dE dF1 df2a df2b df3 dT dEf oldR1 oldR2 liveR ainv sim hA' hsim hx1 hx2 hx3 hx4 hx5 hx6 hx7
      (first | simp only [nextSt, clo, hu0, touch, alloc, free, proj, linz_B, linz_res, linz_closing, linz_ready, linz_val, linz_own, linz_head, take_B, take_res, take_closing, take_ready, take_val, take_own, take_head, noneLP_B, noneLP_res, noneLP_closing, noneLP_ready, noneLP_val, noneLP_own, noneLP_head, ite_linz_B, ite_linz_res, ite_linz_closing, ite_linz_ready, ite_linz_val, ite_linz_own, ite_linz_head] | skip) <;> grind
    case bpos =>
-     clearIf nSB nUaf nDf nPn A_hl A_lr A_lc A_helped A_rdy psetA waitA psetB hbT idleN cons0 alc pre pre0 newc preA preR nb0 nb1 nb2 drp dfl geo fresh tw nbv pidxA cl1 cl2 cl3 pset pcas cAl cWt cLk cTl refR unl lnk rdyR valR hd hb1 hb2 hb3 anh lHb lPi lCi lFast lStore lCopy lHead dE dF1 df2a df2b df3 dT dEf oldR1 oldR2 liveR ainv sim hA' hsim hx1 hx2 hx3 hx4 hx5 hx6 hx7
+     clearIf nSB nUaf nDf nPn A_hl A_lr A_lc A_helped A_rdy psetA waitA psetB hbT idleN cons0 alc pre pre0 newc preA preR nb0 nb1 nb2 drp dfl geo fresh tw nbv pidxA cl1 cl2 cl3 pset psv psU pcas cAl cWt cLk cTl refR unl lnk rdyR valR hd hb1 hb2 hb3 anh lHb lPi lCi lFast lStore lCopy lRd lHead dE dF1 df2a df2b df3 dT dEf oldR1 oldR2 liveR ainv sim hA' hsim hx1 hx2 hx3 hx4 hx5 hx6 hx7
      (first | simp only [nextSt, clo, hu0, touch, alloc, free, proj, linz_B, linz_res, linz_closing, linz_ready, linz_val, linz_own, linz_head, take_B, take_res, take_closing, take_ready, take_val, take_own, take_head, noneLP_B, noneLP_res, noneLP_closing, noneLP_ready, noneLP_val, noneLP_own, noneLP_head, ite_linz_B, ite_linz_res, ite_linz_closing, ite_linz_ready, ite_linz_val, ite_linz_own, ite_linz_head] | skip) <;> grind
    case ainv => exact hA'
    case sim =>
@@ -267,97 +273,100 @@ macro "bfinNoSlot" tt:term : tactic => `(tactic|
      clearIf nSB nUaf nDf psetA waitA psetB hbT geo fresh rdyR valR oldR1 oldR2 liveR ainv sim hA' hsim hx1 hx2 hx3 hx4 hx5 hx6 hx7
      (first | simp only [nextSt, clo, hu0, touch, alloc, free, proj, linz_B, linz_res, linz_closing, linz_ready, linz_val, linz_own, linz_head, take_B, take_res, take_closing, take_ready, take_val, take_own, take_head, noneLP_B, noneLP_res, noneLP_closing, noneLP_ready, noneLP_val, noneLP_own, noneLP_head, ite_linz_B, ite_linz_res, ite_linz_closing, ite_linz_ready, ite_linz_val, ite_linz_own, ite_linz_head] | skip) <;> grind
    case idleN =>
-     clearIf nSB nUaf nDf nPn A_hl A_lr A_lc A_helped A_rdy psetA waitA psetB hbT cons0 alc pre pre0 newc preA preR nb0 nb1 nb2 drp dfl geo fresh tw nbv pidxA cl1 cl2 cl3 pset pcas cAl cWt cLk cTl refR unl lnk rdyR valR hd hb1 hb2 hb3 anh lHb lPi lCi lFast lStore lCopy lHead dE dF1 df2a df2b df3 dT dEf oldR1 oldR2 liveR ainv sim hA' hsim hx1 hx2 hx3 hx4 hx5 hx6 hx7
+     clearIf nSB nUaf nDf nPn A_hl A_lr A_lc A_helped A_rdy psetA waitA psetB hbT cons0 alc pre pre0 newc preA preR nb0 nb1 nb2 drp dfl geo fresh tw nbv pidxA cl1 cl2 cl3 pset psv psU pcas cAl cWt cLk cTl refR unl lnk rdyR valR hd hb1 hb2 hb3 anh lHb lPi lCi lFast lStore lCopy lRd lHead dE dF1 df2a df2b df3 dT dEf oldR1 oldR2 liveR ainv sim hA' hsim hx1 hx2 hx3 hx4 hx5 hx6 hx7
      (first | simp only [nextSt, clo, hu0, touch, alloc, free, proj, linz_B, linz_res, linz_closing, linz_ready, linz_val, linz_own, linz_head, take_B, take_res, take_closing, take_ready, take_val, take_own, take_head, noneLP_B, noneLP_res, noneLP_closing, noneLP_ready, noneLP_val, noneLP_own, noneLP_head, ite_linz_B, ite_linz_res, ite_linz_closing, ite_linz_ready, ite_linz_val, ite_linz_own, ite_linz_head] | skip) <;> grind
    case cons0 =>
-     clearIf nSB nUaf nDf nPn A_hl A_lr A_lc A_helped A_rdy psetA waitA psetB hbT alc pre pre0 newc preA preR nb0 nb1 nb2 drp dfl geo fresh tw nbv pidxA cl1 cl2 cl3 pset pcas cAl cWt cLk cTl refR unl lnk rdyR valR hd hb1 hb2 hb3 anh lHb lPi lCi lFast lStore lCopy lHead dE dF1 df2a df2b df3 dT dEf oldR1 oldR2 liveR ainv sim hA' hsim hx1 hx2 hx3 hx4 hx5 hx6 hx7
+     clearIf nSB nUaf nDf nPn A_hl A_lr A_lc A_helped A_rdy psetA waitA psetB hbT alc pre pre0 newc preA preR nb0 nb1 nb2 drp dfl geo fresh tw nbv pidxA cl1 cl2 cl3 pset psv psU pcas cAl cWt cLk cTl refR unl lnk rdyR valR hd hb1 hb2 hb3 anh lHb lPi lCi lFast lStore lCopy lRd lHead dE dF1 df2a df2b df3 dT dEf oldR1 oldR2 liveR ainv sim hA' hsim hx1 hx2 hx3 hx4 hx5 hx6 hx7
      (first | simp only [nextSt, clo, hu0, touch, alloc, free, proj, linz_B, linz_res, linz_closing, linz_ready, linz_val, linz_own, linz_head, take_B, take_res, take_closing, take_ready, take_val, take_own, take_head, noneLP_B, noneLP_res, noneLP_closing, noneLP_ready, noneLP_val, noneLP_own, noneLP_head, ite_linz_B, ite_linz_res, ite_linz_closing, ite_linz_ready, ite_linz_val, ite_linz_own, ite_linz_head] | skip) <;> grind
    case alc =>
-     clearIf nSB nUaf nDf nPn A_hl A_lr A_lc A_helped A_rdy psetA waitA psetB hbT geo fresh tw nbv pidxA cl1 cl2 cl3 pset pcas cAl cWt cLk cTl refR unl lnk rdyR valR hd hb1 hb2 hb3 anh lHb lPi lCi lFast lStore lCopy lHead dE dF1 df2a df2b df3 dT dEf oldR1 oldR2 liveR ainv sim hA' hsim hx1 hx2 hx3 hx4 hx5 hx6 hx7
+     clearIf nSB nUaf nDf nPn A_hl A_lr A_lc A_helped A_rdy psetA waitA psetB hbT geo fresh tw nbv pidxA cl1 cl2 cl3 pset psv psU pcas cAl cWt cLk cTl refR unl lnk rdyR valR hd hb1 hb2 hb3 anh lHb lPi lCi lFast lStore lCopy lRd lHead dE dF1 df2a df2b df3 dT dEf oldR1 oldR2 liveR ainv sim hA' hsim hx1 hx2 hx3 hx4 hx5 hx6 hx7
      (first | simp only [nextSt, clo, hu0, touch, alloc, free, proj, linz_B, linz_res, linz_closing, linz_ready, linz_val, linz_own, linz_head, take_B, take_res, take_closing, take_ready, take_val, take_own, take_head, noneLP_B, noneLP_res, noneLP_closing, noneLP_ready, noneLP_val, noneLP_own, noneLP_head, ite_linz_B, ite_linz_res, ite_linz_closing, ite_linz_ready, ite_linz_val, ite_linz_own, ite_linz_head] | skip) <;> grind
    case pre =>
-     clearIf nSB nUaf nDf nPn A_hl A_lr A_lc A_helped A_rdy psetA waitA psetB hbT geo fresh tw nbv pidxA cl1 cl2 cl3 pset pcas cAl cWt cLk cTl refR unl lnk rdyR valR hd hb1 hb2 hb3 anh lHb lPi lCi lFast lStore lCopy lHead dE dF1 df2a df2b df3 dT dEf oldR1 oldR2 liveR ainv sim hA' hsim hx1 hx2 hx3 hx4 hx5 hx6 hx7
+     clearIf nSB nUaf nDf nPn A_hl A_lr A_lc A_helped A_rdy psetA waitA psetB hbT geo fresh tw nbv pidxA cl1 cl2 cl3 pset psv psU pcas cAl cWt cLk cTl refR unl lnk rdyR valR hd hb1 hb2 hb3 anh lHb lPi lCi lFast lStore lCopy lRd lHead dE dF1 df2a df2b df3 dT dEf oldR1 oldR2 liveR ainv sim hA' hsim hx1 hx2 hx3 hx4 hx5 hx6 hx7
      (first | simp only [nextSt, clo, hu0, touch, alloc, free, proj, linz_B, linz_res, linz_closing, linz_ready, linz_val, linz_own, linz_head, take_B, take_res, take_closing, take_ready, take_val, take_own, take_head, noneLP_B, noneLP_res, noneLP_closing, noneLP_ready, noneLP_val, noneLP_own, noneLP_head, ite_linz_B, ite_linz_res, ite_linz_closing, ite_linz_ready, ite_linz_val, ite_linz_own, ite_linz_head] | skip) <;> grind
    case pre0 =>
-     clearIf nSB nUaf nDf nPn A_hl A_lr A_lc A_helped A_rdy psetA waitA psetB hbT geo fresh tw nbv pidxA cl1 cl2 cl3 pset pcas cAl cWt cLk cTl refR unl lnk rdyR valR hd hb1 hb2 hb3 anh lHb lPi lCi lFast lStore lCopy lHead dE dF1 df2a df2b df3 dT dEf oldR1 oldR2 liveR ainv sim hA' hsim hx1 hx2 hx3 hx4 hx5 hx6 hx7
+     clearIf nSB nUaf nDf nPn A_hl A_lr A_lc A_helped A_rdy psetA waitA psetB hbT geo fresh tw nbv pidxA cl1 cl2 cl3 pset psv psU pcas cAl cWt cLk cTl refR unl lnk rdyR valR hd hb1 hb2 hb3 anh lHb lPi lCi lFast lStore lCopy lRd lHead dE dF1 df2a df2b df3 dT dEf oldR1 oldR2 liveR ainv sim hA' hsim hx1 hx2 hx3 hx4 hx5 hx6 hx7
      (first | simp only [nextSt, clo, hu0, touch, alloc, free, proj, linz_B, linz_res, linz_closing, linz_ready, linz_val, linz_own, linz_head, take_B, take_res, take_closing, take_ready, take_val, take_own, take_head, noneLP_B, noneLP_res, noneLP_closing, noneLP_ready, noneLP_val, noneLP_own, noneLP_head, ite_linz_B, ite_linz_res, ite_linz_closing, ite_linz_ready, ite_linz_val, ite_linz_own, ite_linz_head] | skip) <;> grind
    case newc =>
-     clearIf nSB nUaf nDf nPn A_hl A_lr A_lc A_helped A_rdy psetA waitA psetB hbT geo fresh tw nbv pidxA cl1 cl2 cl3 pset pcas cAl cWt cLk cTl refR unl lnk rdyR valR hd hb1 hb2 hb3 anh lHb lPi lCi lFast lStore lCopy lHead dE dF1 df2a df2b df3 dT dEf oldR1 oldR2 liveR ainv sim hA' hsim hx1 hx2 hx3 hx4 hx5 hx6 hx7
+     clearIf nSB nUaf nDf nPn A_hl A_lr A_lc A_helped A_rdy psetA waitA psetB hbT geo fresh tw nbv pidxA cl1 cl2 cl3 pset psv psU pcas cAl cWt cLk cTl refR unl lnk rdyR valR hd hb1 hb2 hb3 anh lHb lPi lCi lFast lStore lCopy lRd lHead dE dF1 df2a df2b df3 dT dEf oldR1 oldR2 liveR ainv sim hA' hsim hx1 hx2 hx3 hx4 hx5 hx6 hx7
      (first | simp only [nextSt, clo, hu0, touch, alloc, free, proj, linz_B, linz_res, linz_closing, linz_ready, linz_val, linz_own, linz_head, take_B, take_res, take_closing, take_ready, take_val, take_own, take_head, noneLP_B, noneLP_res, noneLP_closing, noneLP_ready, noneLP_val, noneLP_own, noneLP_head, ite_linz_B, ite_linz_res, ite_linz_closing, ite_linz_ready, ite_linz_val, ite_linz_own, ite_linz_head] | skip) <;> grind
    case preA =>
-     clearIf nSB nUaf nDf nPn A_hl A_lr A_lc A_helped A_rdy psetA waitA psetB hbT geo fresh tw nbv pidxA cl1 cl2 cl3 pset pcas cAl cWt cLk cTl refR unl lnk rdyR valR hd hb1 hb2 hb3 anh lHb lPi lCi lFast lStore lCopy lHead dE dF1 df2a df2b df3 dT dEf oldR1 oldR2 liveR ainv sim hA' hsim hx1 hx2 hx3 hx4 hx5 hx6 hx7
+     clearIf nSB nUaf nDf nPn A_hl A_lr A_lc A_helped A_rdy psetA waitA psetB hbT geo fresh tw nbv pidxA cl1 cl2 cl3 pset psv psU pcas cAl cWt cLk cTl refR unl lnk rdyR valR hd hb1 hb2 hb3 anh lHb lPi lCi lFast lStore lCopy lRd lHead dE dF1 df2a df2b df3 dT dEf oldR1 oldR2 liveR ainv sim hA' hsim hx1 hx2 hx3 hx4 hx5 hx6 hx7
      (first | simp only [nextSt, clo, hu0, touch, alloc, free, proj, linz_B, linz_res, linz_closing, linz_ready, linz_val, linz_own, linz_head, take_B, take_res, take_closing, take_ready, take_val, take_own, take_head, noneLP_B, noneLP_res, noneLP_closing, noneLP_ready, noneLP_val, noneLP_own, noneLP_head, ite_linz_B, ite_linz_res, ite_linz_closing, ite_linz_ready, ite_linz_val, ite_linz_own, ite_linz_head] | skip) <;> grind
    case preR =>
-     clearIf nSB nUaf nDf nPn A_hl A_lr A_lc A_helped A_rdy psetA waitA psetB hbT geo fresh tw nbv pidxA cl1 cl2 cl3 pset pcas cAl cWt cLk cTl refR unl lnk rdyR valR hd hb1 hb2 hb3 anh lHb lPi lCi lFast lStore lCopy lHead dE dF1 df2a df2b df3 dT dEf oldR1 oldR2 liveR ainv sim hA' hsim hx1 hx2 hx3 hx4 hx5 hx6 hx7
+     clearIf nSB nUaf nDf nPn A_hl A_lr A_lc A_helped A_rdy psetA waitA psetB hbT geo fresh tw nbv pidxA cl1 cl2 cl3 pset psv psU pcas cAl cWt cLk cTl refR unl lnk rdyR valR hd hb1 hb2 hb3 anh lHb lPi lCi lFast lStore lCopy lRd lHead dE dF1 df2a df2b df3 dT dEf oldR1 oldR2 liveR ainv sim hA' hsim hx1 hx2 hx3 hx4 hx5 hx6 hx7
      (first | simp only [nextSt, clo, hu0, touch, alloc, free, proj, linz_B, linz_res, linz_closing, linz_ready, linz_val, linz_own, linz_head, take_B, take_res, take_closing, take_ready, take_val, take_own, take_head, noneLP_B, noneLP_res, noneLP_closing, noneLP_ready, noneLP_val, noneLP_own, noneLP_head, ite_linz_B, ite_linz_res, ite_linz_closing, ite_linz_ready, ite_linz_val, ite_linz_own, ite_linz_head] | skip) <;> grind
    case nb0 =>
-     clearIf nSB nUaf nDf nPn A_hl A_lr A_lc A_helped A_rdy psetA waitA psetB hbT geo fresh tw nbv pidxA cl1 cl2 cl3 pset pcas cAl cWt cLk cTl refR unl lnk rdyR valR hd hb1 hb2 hb3 anh lHb lPi lCi lFast lStore lCopy lHead dE dF1 df2a df2b df3 dT dEf oldR1 oldR2 liveR ainv sim hA' hsim hx1 hx2 hx3 hx4 hx5 hx6 hx7
+     clearIf nSB nUaf nDf nPn A_hl A_lr A_lc A_helped A_rdy psetA waitA psetB hbT geo fresh tw nbv pidxA cl1 cl2 cl3 pset psv psU pcas cAl cWt cLk cTl refR unl lnk rdyR valR hd hb1 hb2 hb3 anh lHb lPi lCi lFast lStore lCopy lRd lHead dE dF1 df2a df2b df3 dT dEf oldR1 oldR2 liveR ainv sim hA' hsim hx1 hx2 hx3 hx4 hx5 hx6 hx7
      (first | simp only [nextSt, clo, hu0, touch, alloc, free, proj, linz_B, linz_res, linz_closing, linz_ready, linz_val, linz_own, linz_head, take_B, take_res, take_closing, take_ready, take_val, take_own, take_head, noneLP_B, noneLP_res, noneLP_closing, noneLP_ready, noneLP_val, noneLP_own, noneLP_head, ite_linz_B, ite_linz_res, ite_linz_closing, ite_linz_ready, ite_linz_val, ite_linz_own, ite_linz_head] | skip) <;> grind
    case nb1 =>
-     clearIf nSB nUaf nDf nPn A_hl A_lr A_lc A_helped A_rdy psetA waitA psetB hbT tw nbv pidxA cl1 cl2 cl3 pset pcas cAl cWt cLk cTl refR unl lnk rdyR valR hd hb1 hb2 hb3 anh lHb lPi lCi lFast lStore lCopy lHead dE dF1 df2a df2b df3 dT dEf oldR1 oldR2 liveR ainv sim hA' hsim hx1 hx2 hx3 hx4 hx5 hx6 hx7
+     clearIf nSB nUaf nDf nPn A_hl A_lr A_lc A_helped A_rdy psetA waitA psetB hbT tw nbv pidxA cl1 cl2 cl3 pset psv psU pcas cAl cWt cLk cTl refR unl lnk rdyR valR hd hb1 hb2 hb3 anh lHb lPi lCi lFast lStore lCopy lRd lHead dE dF1 df2a df2b df3 dT dEf oldR1 oldR2 liveR ainv sim hA' hsim hx1 hx2 hx3 hx4 hx5 hx6 hx7
      (first | simp only [nextSt, clo, hu0, touch, alloc, free, proj, linz_B, linz_res, linz_closing, linz_ready, linz_val, linz_own, linz_head, take_B, take_res, take_closing, take_ready, take_val, take_own, take_head, noneLP_B, noneLP_res, noneLP_closing, noneLP_ready, noneLP_val, noneLP_own, noneLP_head, ite_linz_B, ite_linz_res, ite_linz_closing, ite_linz_ready, ite_linz_val, ite_linz_own, ite_linz_head] | skip) <;> grind
    case nb2 =>
-     clearIf nSB nUaf nDf nPn A_hl A_lr A_lc A_helped A_rdy psetA waitA psetB hbT tw nbv pidxA cl1 cl2 cl3 pset pcas cAl cWt cLk cTl refR unl lnk rdyR valR hd hb1 hb2 hb3 anh lHb lPi lCi lFast lStore lCopy lHead dE dF1 df2a df2b df3 dT dEf oldR1 oldR2 liveR ainv sim hA' hsim hx1 hx2 hx3 hx4 hx5 hx6 hx7
+     clearIf nSB nUaf nDf nPn A_hl A_lr A_lc A_helped A_rdy psetA waitA psetB hbT tw nbv pidxA cl1 cl2 cl3 pset psv psU pcas cAl cWt cLk cTl refR unl lnk rdyR valR hd hb1 hb2 hb3 anh lHb lPi lCi lFast lStore lCopy lRd lHead dE dF1 df2a df2b df3 dT dEf oldR1 oldR2 liveR ainv sim hA' hsim hx1 hx2 hx3 hx4 hx5 hx6 hx7
      (first | simp only [nextSt, clo, hu0, touch, alloc, free, proj, linz_B, linz_res, linz_closing, linz_ready, linz_val, linz_own, linz_head, take_B, take_res, take_closing, take_ready, take_val, take_own, take_head, noneLP_B, noneLP_res, noneLP_closing, noneLP_ready, noneLP_val, noneLP_own, noneLP_head, ite_linz_B, ite_linz_res, ite_linz_closing, ite_linz_ready, ite_linz_val, ite_linz_own, ite_linz_head] | skip) <;> grind
    case drp =>
-     clearIf nSB nUaf nDf nPn A_hl A_lr A_lc A_helped A_rdy psetA waitA psetB hbT geo fresh tw nbv pidxA cl1 cl2 cl3 pset pcas cAl cWt cLk cTl refR unl lnk rdyR valR hd hb1 hb2 hb3 anh lHb lPi lCi lFast lStore lCopy lHead dE dF1 df2a df2b df3 dT dEf oldR1 oldR2 liveR ainv sim hA' hsim
+     clearIf nSB nUaf nDf nPn A_hl A_lr A_lc A_helped A_rdy psetA waitA psetB hbT geo fresh tw nbv pidxA cl1 cl2 cl3 pset psv psU pcas cAl cWt cLk cTl refR unl lnk rdyR valR hd hb1 hb2 hb3 anh lHb lPi lCi lFast lStore lCopy lRd lHead dE dF1 df2a df2b df3 dT dEf oldR1 oldR2 liveR ainv sim hA' hsim
      (first | simp only [nextSt, clo, hu0, touch, alloc, free, proj, linz_B, linz_res, linz_closing, linz_ready, linz_val, linz_own, linz_head, take_B, take_res, take_closing, take_ready, take_val, take_own, take_head, noneLP_B, noneLP_res, noneLP_closing, noneLP_ready, noneLP_val, noneLP_own, noneLP_head, ite_linz_B, ite_linz_res, ite_linz_closing, ite_linz_ready, ite_linz_val, ite_linz_own, ite_linz_head] | skip) <;> grind
    case dfl =>
-     clearIf nSB nUaf nDf nPn A_hl A_lr A_lc A_helped A_rdy psetA waitA psetB hbT geo fresh tw nbv pidxA cl1 cl2 cl3 pset pcas cAl cWt cLk cTl refR unl lnk rdyR valR hd hb1 hb2 hb3 anh lHb lPi lCi lFast lStore lCopy lHead dE dF1 df2a df2b df3 dT dEf oldR1 oldR2 liveR ainv sim hA' hsim hx1 hx2 hx3 hx4 hx5 hx6 hx7
+     clearIf nSB nUaf nDf nPn A_hl A_lr A_lc A_helped A_rdy psetA waitA psetB hbT geo fresh tw nbv pidxA cl1 cl2 cl3 pset psv psU pcas cAl cWt cLk cTl refR unl lnk rdyR valR hd hb1 hb2 hb3 anh lHb lPi lCi lFast lStore lCopy lRd lHead dE dF1 df2a df2b df3 dT dEf oldR1 oldR2 liveR ainv sim hA' hsim hx1 hx2 hx3 hx4 hx5 hx6 hx7
      (first | simp only [nextSt, clo, hu0, touch, alloc, free, proj, linz_B, linz_res, linz_closing, linz_ready, linz_val, linz_own, linz_head, take_B, take_res, take_closing, take_ready, take_val, take_own, take_head, noneLP_B, noneLP_res, noneLP_closing, noneLP_ready, noneLP_val, noneLP_own, noneLP_head, ite_linz_B, ite_linz_res, ite_linz_closing, ite_linz_ready, ite_linz_val, ite_linz_own, ite_linz_head] | skip) <;> grind
    case geo =>
-     clearIf nSB nUaf nDf nPn A_hl A_lr A_lc A_helped A_rdy psetA waitA psetB hbT lnk rdyR valR hd hb1 hb2 hb3 anh lHb lPi lCi lFast lStore lCopy lHead dE dF1 df2a df2b df3 dT dEf oldR1 oldR2 liveR ainv sim hA' hsim hx1 hx2 hx3 hx4 hx5 hx6 hx7
+     clearIf nSB nUaf nDf nPn A_hl A_lr A_lc A_helped A_rdy psetA waitA psetB hbT lnk rdyR valR hd hb1 hb2 hb3 anh lHb lPi lCi lFast lStore lCopy lRd lHead dE dF1 df2a df2b df3 dT dEf oldR1 oldR2 liveR ainv sim hA' hsim hx1 hx2 hx3 hx4 hx5 hx6 hx7
      (first | simp only [nextSt, clo, hu0, touch, alloc, free, proj, linz_B, linz_res, linz_closing, linz_ready, linz_val, linz_own, linz_head, take_B, take_res, take_closing, take_ready, take_val, take_own, take_head, noneLP_B, noneLP_res, noneLP_closing, noneLP_ready, noneLP_val, noneLP_own, noneLP_head, ite_linz_B, ite_linz_res, ite_linz_closing, ite_linz_ready, ite_linz_val, ite_linz_own, ite_linz_head] | skip) <;> grind
    case fresh =>
-     clearIf nSB nUaf nDf nPn A_hl A_lr A_lc A_helped A_rdy psetA waitA psetB hbT tw nbv pidxA cl1 cl2 cl3 pset pcas cAl cWt cLk cTl refR unl lnk rdyR valR hd hb1 hb2 hb3 anh lHb lPi lCi lFast lStore lCopy lHead dE dF1 df2a df2b df3 dT dEf oldR1 oldR2 liveR ainv sim hA' hsim hx1 hx2 hx3 hx4 hx5 hx6 hx7
+     clearIf nSB nUaf nDf nPn A_hl A_lr A_lc A_helped A_rdy psetA waitA psetB hbT tw nbv pidxA cl1 cl2 cl3 pset psv psU pcas cAl cWt cLk cTl refR unl lnk rdyR valR hd hb1 hb2 hb3 anh lHb lPi lCi lFast lStore lCopy lRd lHead dE dF1 df2a df2b df3 dT dEf oldR1 oldR2 liveR ainv sim hA' hsim hx1 hx2 hx3 hx4 hx5 hx6 hx7
      (first | simp only [nextSt, clo, hu0, touch, alloc, free, proj, linz_B, linz_res, linz_closing, linz_ready, linz_val, linz_own, linz_head, take_B, take_res, take_closing, take_ready, take_val, take_own, take_head, noneLP_B, noneLP_res, noneLP_closing, noneLP_ready, noneLP_val, noneLP_own, noneLP_head, ite_linz_B, ite_linz_res, ite_linz_closing, ite_linz_ready, ite_linz_val, ite_linz_own, ite_linz_head] | skip) <;> grind
    case tw =>
-     clearIf nSB nUaf nDf nPn lnk rdyR valR hd hb1 hb2 hb3 anh lHb lPi lCi lFast lStore lCopy lHead dE dF1 df2a df2b df3 dT dEf oldR1 oldR2 liveR ainv sim hA' hsim hx1 hx2 hx3 hx4 hx5 hx6 hx7
+     clearIf nSB nUaf nDf nPn lnk rdyR valR hd hb1 hb2 hb3 anh lHb lPi lCi lFast lStore lCopy lRd lHead dE dF1 df2a df2b df3 dT dEf oldR1 oldR2 liveR ainv sim hA' hsim hx1 hx2 hx3 hx4 hx5 hx6 hx7
      (first | simp only [nextSt, clo, hu0, touch, alloc, free, proj, linz_B, linz_res, linz_closing, linz_ready, linz_val, linz_own, linz_head, take_B, take_res, take_closing, take_ready, take_val, take_own, take_head, noneLP_B, noneLP_res, noneLP_closing, noneLP_ready, noneLP_val, noneLP_own, noneLP_head, ite_linz_B, ite_linz_res, ite_linz_closing, ite_linz_ready, ite_linz_val, ite_linz_own, ite_linz_head] | skip) <;> grind
    case nbv =>
-     clearIf nSB nUaf nDf nPn psetA waitA psetB hbT geo fresh lnk rdyR valR hd hb1 hb2 hb3 anh lHb lPi lCi lFast lStore lCopy lHead dE dF1 df2a df2b df3 dT dEf oldR1 oldR2 liveR ainv sim hA' hsim hx1 hx2 hx3 hx4 hx5 hx6 hx7
+     clearIf nSB nUaf nDf nPn psetA waitA psetB hbT geo fresh lnk rdyR valR hd hb1 hb2 hb3 anh lHb lPi lCi lFast lStore lCopy lRd lHead dE dF1 df2a df2b df3 dT dEf oldR1 oldR2 liveR ainv sim hA' hsim hx1 hx2 hx3 hx4 hx5 hx6 hx7
      (first | simp only [nextSt, clo, hu0, touch, alloc, free, proj, linz_B, linz_res, linz_closing, linz_ready, linz_val, linz_own, linz_head, take_B, take_res, take_closing, take_ready, take_val, take_own, take_head, noneLP_B, noneLP_res, noneLP_closing, noneLP_ready, noneLP_val, noneLP_own, noneLP_head, ite_linz_B, ite_linz_res, ite_linz_closing, ite_linz_ready, ite_linz_val, ite_linz_own, ite_linz_head] | skip) <;> grind
    case cl1 =>
-     clearIf nSB nUaf nDf nPn psetA waitA psetB hbT rdyR valR hd hb1 hb2 hb3 anh lHb lPi lCi lFast lStore lCopy lHead dE dF1 df2a df2b df3 dT dEf oldR1 oldR2 liveR ainv sim hA' hsim hx1 hx2 hx3 hx4 hx5 hx6 hx7
+     clearIf nSB nUaf nDf nPn psetA waitA psetB hbT rdyR valR hd hb1 hb2 hb3 anh lHb lPi lCi lFast lStore lCopy lRd lHead dE dF1 df2a df2b df3 dT dEf oldR1 oldR2 liveR ainv sim hA' hsim hx1 hx2 hx3 hx4 hx5 hx6 hx7
      (first | simp only [nextSt, clo, hu0, touch, alloc, free, proj, linz_B, linz_res, linz_closing, linz_ready, linz_val, linz_own, linz_head, take_B, take_res, take_closing, take_ready, take_val, take_own, take_head, noneLP_B, noneLP_res, noneLP_closing, noneLP_ready, noneLP_val, noneLP_own, noneLP_head, ite_linz_B, ite_linz_res, ite_linz_closing, ite_linz_ready, ite_linz_val, ite_linz_own, ite_linz_head] | skip) <;> grind
    case cl2 =>
-     clearIf nSB nUaf nDf nPn psetA waitA psetB hbT rdyR valR hd hb1 hb2 hb3 anh lHb lPi lCi lFast lStore lCopy lHead dE dF1 df2a df2b df3 dT dEf oldR1 oldR2 liveR ainv sim hA' hsim hx1 hx2 hx3 hx4 hx5 hx6 hx7
+     clearIf nSB nUaf nDf nPn psetA waitA psetB hbT rdyR valR hd hb1 hb2 hb3 anh lHb lPi lCi lFast lStore lCopy lRd lHead dE dF1 df2a df2b df3 dT dEf oldR1 oldR2 liveR ainv sim hA' hsim hx1 hx2 hx3 hx4 hx5 hx6 hx7
      (first | simp only [nextSt, clo, hu0, touch, alloc, free, proj, linz_B, linz_res, linz_closing, linz_ready, linz_val, linz_own, linz_head, take_B, take_res, take_closing, take_ready, take_val, take_own, take_head, noneLP_B, noneLP_res, noneLP_closing, noneLP_ready, noneLP_val, noneLP_own, noneLP_head, ite_linz_B, ite_linz_res, ite_linz_closing, ite_linz_ready, ite_linz_val, ite_linz_own, ite_linz_head] | skip) <;> grind
    case cl3 =>
-     clearIf nSB nUaf nDf nPn psetA waitA psetB hbT rdyR valR hd hb1 hb2 hb3 anh lHb lPi lCi lFast lStore lCopy lHead dE dF1 df2a df2b df3 dT dEf oldR1 oldR2 liveR ainv sim hA' hsim hx1 hx2 hx3 hx4 hx5 hx6 hx7
+     clearIf nSB nUaf nDf nPn psetA waitA psetB hbT rdyR valR hd hb1 hb2 hb3 anh lHb lPi lCi lFast lStore lCopy lRd lHead dE dF1 df2a df2b df3 dT dEf oldR1 oldR2 liveR ainv sim hA' hsim hx1 hx2 hx3 hx4 hx5 hx6 hx7
      (first | simp only [nextSt, clo, hu0, touch, alloc, free, proj, linz_B, linz_res, linz_closing, linz_ready, linz_val, linz_own, linz_head, take_B, take_res, take_closing, take_ready, take_val, take_own, take_head, noneLP_B, noneLP_res, noneLP_closing, noneLP_ready, noneLP_val, noneLP_own, noneLP_head, ite_linz_B, ite_linz_res, ite_linz_closing, ite_linz_ready, ite_linz_val, ite_linz_own, ite_linz_head] | skip) <;> grind
    case pset =>
-     clearIf nSB nUaf nDf nPn psetA waitA psetB hbT rdyR valR hd hb1 hb2 hb3 anh lHb lPi lCi lFast lStore lCopy lHead dE dF1 df2a df2b df3 dT dEf oldR1 oldR2 liveR ainv sim hA' hsim hx1 hx2 hx3 hx4 hx5 hx6 hx7
+     clearIf nSB nUaf nDf nPn psetA waitA psetB hbT rdyR valR hd hb1 hb2 hb3 anh lHb lPi lCi lFast lStore lCopy lRd lHead dE dF1 df2a df2b df3 dT dEf oldR1 oldR2 liveR ainv sim hA' hsim hx1 hx2 hx3 hx4 hx5 hx6 hx7
+     (first | simp only [nextSt, clo, hu0, touch, alloc, free, proj, linz_B, linz_res, linz_closing, linz_ready, linz_val, linz_own, linz_head, take_B, take_res, take_closing, take_ready, take_val, take_own, take_head, noneLP_B, noneLP_res, noneLP_closing, noneLP_ready, noneLP_val, noneLP_own, noneLP_head, ite_linz_B, ite_linz_res, ite_linz_closing, ite_linz_ready, ite_linz_val, ite_linz_own, ite_linz_head] | skip) <;> grind
+   case psv =>
+     clearIf nSB nUaf nDf nPn psetA waitA psetB hbT rdyR valR hd hb1 hb2 hb3 anh lHb lPi lCi lFast lStore lCopy lRd lHead dE dF1 df2a df2b df3 dT dEf oldR1 oldR2 liveR ainv sim hA' hsim hx1 hx2 hx3 hx4 hx5 hx6 hx7
      (first | simp only [nextSt, clo, hu0, touch, alloc, free, proj, linz_B, linz_res, linz_closing, linz_ready, linz_val, linz_own, linz_head, take_B, take_res, take_closing, take_ready, take_val, take_own, take_head, noneLP_B, noneLP_res, noneLP_closing, noneLP_ready, noneLP_val, noneLP_own, noneLP_head, ite_linz_B, ite_linz_res, ite_linz_closing, ite_linz_ready, ite_linz_val, ite_linz_own, ite_linz_head] | skip) <;> grind
    case pcas =>
-     clearIf nSB nUaf nDf nPn psetA waitA psetB hbT rdyR valR hd hb1 hb2 hb3 anh lHb lPi lCi lFast lStore lCopy lHead dE dF1 df2a df2b df3 dT dEf oldR1 oldR2 liveR ainv sim hA' hsim hx1 hx2 hx3 hx4 hx5 hx6 hx7
+     clearIf nSB nUaf nDf nPn psetA waitA psetB hbT rdyR valR hd hb1 hb2 hb3 anh lHb lPi lCi lFast lStore lCopy lRd lHead dE dF1 df2a df2b df3 dT dEf oldR1 oldR2 liveR ainv sim hA' hsim hx1 hx2 hx3 hx4 hx5 hx6 hx7
      (first | simp only [nextSt, clo, hu0, touch, alloc, free, proj, linz_B, linz_res, linz_closing, linz_ready, linz_val, linz_own, linz_head, take_B, take_res, take_closing, take_ready, take_val, take_own, take_head, noneLP_B, noneLP_res, noneLP_closing, noneLP_ready, noneLP_val, noneLP_own, noneLP_head, ite_linz_B, ite_linz_res, ite_linz_closing, ite_linz_ready, ite_linz_val, ite_linz_own, ite_linz_head] | skip) <;> grind
    case cAl =>
-     clearIf nSB nUaf nDf nPn psetA waitA psetB hbT rdyR valR hd hb1 hb2 hb3 anh lHb lPi lCi lFast lStore lCopy lHead dE dF1 df2a df2b df3 dT dEf oldR1 oldR2 liveR ainv sim hA' hsim hx1 hx2 hx3 hx4 hx5 hx6 hx7
+     clearIf nSB nUaf nDf nPn psetA waitA psetB hbT rdyR valR hd hb1 hb2 hb3 anh lHb lPi lCi lFast lStore lCopy lRd lHead dE dF1 df2a df2b df3 dT dEf oldR1 oldR2 liveR ainv sim hA' hsim hx1 hx2 hx3 hx4 hx5 hx6 hx7
      (first | simp only [nextSt, clo, hu0, touch, alloc, free, proj, linz_B, linz_res, linz_closing, linz_ready, linz_val, linz_own, linz_head, take_B, take_res, take_closing, take_ready, take_val, take_own, take_head, noneLP_B, noneLP_res, noneLP_closing, noneLP_ready, noneLP_val, noneLP_own, noneLP_head, ite_linz_B, ite_linz_res, ite_linz_closing, ite_linz_ready, ite_linz_val, ite_linz_own, ite_linz_head] | skip) <;> grind
    case cWt =>
-     clearIf nSB nUaf nDf nPn psetA waitA psetB hbT rdyR valR hd hb1 hb2 hb3 anh lHb lPi lCi lFast lStore lCopy lHead dE dF1 df2a df2b df3 dT dEf oldR1 oldR2 liveR ainv sim hA' hsim hx1 hx2 hx3 hx4 hx5 hx6 hx7
+     clearIf nSB nUaf nDf nPn psetA waitA psetB hbT rdyR valR hd hb1 hb2 hb3 anh lHb lPi lCi lFast lStore lCopy lRd lHead dE dF1 df2a df2b df3 dT dEf oldR1 oldR2 liveR ainv sim hA' hsim hx1 hx2 hx3 hx4 hx5 hx6 hx7
      (first | simp only [nextSt, clo, hu0, touch, alloc, free, proj, linz_B, linz_res, linz_closing, linz_ready, linz_val, linz_own, linz_head, take_B, take_res, take_closing, take_ready, take_val, take_own, take_head, noneLP_B, noneLP_res, noneLP_closing, noneLP_ready, noneLP_val, noneLP_own, noneLP_head, ite_linz_B, ite_linz_res, ite_linz_closing, ite_linz_ready, ite_linz_val, ite_linz_own, ite_linz_head] | skip) <;> grind
    case cLk =>
-     clearIf nSB nUaf nDf nPn psetA waitA psetB hbT rdyR valR hd hb1 hb2 hb3 anh lHb lPi lCi lFast lStore lCopy lHead dE dF1 df2a df2b df3 dT dEf oldR1 oldR2 liveR ainv sim hA' hsim hx1 hx2 hx3 hx4 hx5 hx6 hx7
+     clearIf nSB nUaf nDf nPn psetA waitA psetB hbT rdyR valR hd hb1 hb2 hb3 anh lHb lPi lCi lFast lStore lCopy lRd lHead dE dF1 df2a df2b df3 dT dEf oldR1 oldR2 liveR ainv sim hA' hsim hx1 hx2 hx3 hx4 hx5 hx6 hx7
      (first | simp only [nextSt, clo, hu0, touch, alloc, free, proj, linz_B, linz_res, linz_closing, linz_ready, linz_val, linz_own, linz_head, take_B, take_res, take_closing, take_ready, take_val, take_own, take_head, noneLP_B, noneLP_res, noneLP_closing, noneLP_ready, noneLP_val, noneLP_own, noneLP_head, ite_linz_B, ite_linz_res, ite_linz_closing, ite_linz_ready, ite_linz_val, ite_linz_own, ite_linz_head] | skip) <;> grind
    case cTl =>
-     clearIf nSB nUaf nDf nPn psetA waitA psetB hbT rdyR valR hd hb1 hb2 hb3 anh lHb lPi lCi lFast lStore lCopy lHead dE dF1 df2a df2b df3 dT dEf oldR1 oldR2 liveR ainv sim hA' hsim hx1 hx2 hx3 hx4 hx5 hx6 hx7
+     clearIf nSB nUaf nDf nPn psetA waitA psetB hbT rdyR valR hd hb1 hb2 hb3 anh lHb lPi lCi lFast lStore lCopy lRd lHead dE dF1 df2a df2b df3 dT dEf oldR1 oldR2 liveR ainv sim hA' hsim hx1 hx2 hx3 hx4 hx5 hx6 hx7
      (first | simp only [nextSt, clo, hu0, touch, alloc, free, proj, linz_B, linz_res, linz_closing, linz_ready, linz_val, linz_own, linz_head, take_B, take_res, take_closing, take_ready, take_val, take_own, take_head, noneLP_B, noneLP_res, noneLP_closing, noneLP_ready, noneLP_val, noneLP_own, noneLP_head, ite_linz_B, ite_linz_res, ite_linz_closing, ite_linz_ready, ite_linz_val, ite_linz_own, ite_linz_head] | skip) <;> grind
    case lnk =>
-     clearIf nSB nUaf nDf nPn A_hl A_lr A_lc A_helped A_rdy psetA waitA psetB hbT rdyR valR hd hb1 hb2 hb3 anh lHb lPi lCi lFast lStore lCopy lHead dE dF1 df2a df2b df3 dT dEf oldR1 oldR2 liveR ainv sim hA' hsim hx1 hx2 hx3 hx4 hx5 hx6 hx7
+     clearIf nSB nUaf nDf nPn A_hl A_lr A_lc A_helped A_rdy psetA waitA psetB hbT rdyR valR hd hb1 hb2 hb3 anh lHb lPi lCi lFast lStore lCopy lRd lHead dE dF1 df2a df2b df3 dT dEf oldR1 oldR2 liveR ainv sim hA' hsim hx1 hx2 hx3 hx4 hx5 hx6 hx7
      (first | simp only [nextSt, clo, hu0, touch, alloc, free, proj, linz_B, linz_res, linz_closing, linz_ready, linz_val, linz_own, linz_head, take_B, take_res, take_closing, take_ready, take_val, take_own, take_head, noneLP_B, noneLP_res, noneLP_closing, noneLP_ready, noneLP_val, noneLP_own, noneLP_head, ite_linz_B, ite_linz_res, ite_linz_closing, ite_linz_ready, ite_linz_val, ite_linz_own, ite_linz_head] | skip) <;> grind
    case hd =>
-     clearIf nSB nUaf nDf nPn A_hl A_lr A_lc A_helped A_rdy psetA waitA psetB hbT geo fresh tw nbv pidxA cl1 cl2 cl3 pset pcas cAl cWt cLk cTl refR unl lnk rdyR valR dE dF1 df2a df2b df3 dT dEf oldR1 oldR2 liveR ainv sim hA' hsim
+     clearIf nSB nUaf nDf nPn A_hl A_lr A_lc A_helped A_rdy psetA waitA psetB hbT geo fresh tw nbv pidxA cl1 cl2 cl3 pset psv psU pcas cAl cWt cLk cTl refR unl lnk rdyR valR dE dF1 df2a df2b df3 dT dEf oldR1 oldR2 liveR ainv sim hA' hsim
      (first | simp only [nextSt, clo, hu0, touch, alloc, free, proj, linz_B, linz_res, linz_closing, linz_ready, linz_val, linz_own, linz_head, take_B, take_res, take_closing, take_ready, take_val, take_own, take_head, noneLP_B, noneLP_res, noneLP_closing, noneLP_ready, noneLP_val, noneLP_own, noneLP_head, ite_linz_B, ite_linz_res, ite_linz_closing, ite_linz_ready, ite_linz_val, ite_linz_own, ite_linz_head] | skip) <;> grind
    case hb1 =>
-     clearIf nSB nUaf nDf nPn A_hl A_lr A_lc A_helped A_rdy psetA waitA psetB hbT geo fresh tw nbv pidxA cl1 cl2 cl3 pset pcas cAl cWt cLk cTl refR unl lnk rdyR valR dE dF1 df2a df2b df3 dT dEf oldR1 oldR2 liveR ainv sim hA' hsim
+     clearIf nSB nUaf nDf nPn A_hl A_lr A_lc A_helped A_rdy psetA waitA psetB hbT geo fresh tw nbv pidxA cl1 cl2 cl3 pset psv psU pcas cAl cWt cLk cTl refR unl lnk rdyR valR dE dF1 df2a df2b df3 dT dEf oldR1 oldR2 liveR ainv sim hA' hsim
      (first | simp only [nextSt, clo, hu0, touch, alloc, free, proj, linz_B, linz_res, linz_closing, linz_ready, linz_val, linz_own, linz_head, take_B, take_res, take_closing, take_ready, take_val, take_own, take_head, noneLP_B, noneLP_res, noneLP_closing, noneLP_ready, noneLP_val, noneLP_own, noneLP_head, ite_linz_B, ite_linz_res, ite_linz_closing, ite_linz_ready, ite_linz_val, ite_linz_own, ite_linz_head] | skip) <;> grind
    case hb2 =>
-     clearIf nSB nUaf nDf nPn A_hl A_lr A_lc A_helped A_rdy psetA waitA psetB hbT geo fresh tw nbv pidxA cl1 cl2 cl3 pset pcas cAl cWt cLk cTl refR unl lnk rdyR valR dE dF1 df2a df2b df3 dT dEf oldR1 oldR2 liveR ainv sim hA' hsim
+     clearIf nSB nUaf nDf nPn A_hl A_lr A_lc A_helped A_rdy psetA waitA psetB hbT geo fresh tw nbv pidxA cl1 cl2 cl3 pset psv psU pcas cAl cWt cLk cTl refR unl lnk rdyR valR dE dF1 df2a df2b df3 dT dEf oldR1 oldR2 liveR ainv sim hA' hsim
      (first | simp only [nextSt, clo, hu0, touch, alloc, free, proj, linz_B, linz_res, linz_closing, linz_ready, linz_val, linz_own, linz_head, take_B, take_res, take_closing, take_ready, take_val, take_own, take_head, noneLP_B, noneLP_res, noneLP_closing, noneLP_ready, noneLP_val, noneLP_own, noneLP_head, ite_linz_B, ite_linz_res, ite_linz_closing, ite_linz_ready, ite_linz_val, ite_linz_own, ite_linz_head] | skip) <;> grind
    case hb3 =>
-     clearIf nSB nUaf nDf nPn A_hl A_lr A_lc A_helped A_rdy psetA waitA psetB hbT geo fresh tw nbv pidxA cl1 cl2 cl3 pset pcas cAl cWt cLk cTl refR unl lnk rdyR valR dE dF1 df2a df2b df3 dT dEf oldR1 oldR2 liveR ainv sim hA' hsim
+     clearIf nSB nUaf nDf nPn A_hl A_lr A_lc A_helped A_rdy psetA waitA psetB hbT geo fresh tw nbv pidxA cl1 cl2 cl3 pset psv psU pcas cAl cWt cLk cTl refR unl lnk rdyR valR dE dF1 df2a df2b df3 dT dEf oldR1 oldR2 liveR ainv sim hA' hsim
      (first | simp only [nextSt, clo, hu0, touch, alloc, free, proj, linz_B, linz_res, linz_closing, linz_ready, linz_val, linz_own, linz_head, take_B, take_res, take_closing, take_ready, take_val, take_own, take_head, noneLP_B, noneLP_res, noneLP_closing, noneLP_ready, noneLP_val, noneLP_own, noneLP_head, ite_linz_B, ite_linz_res, ite_linz_closing, ite_linz_ready, ite_linz_val, ite_linz_own, ite_linz_head] | skip) <;> grind
    case lHb =>
      clearIf nSB nUaf nDf nPn geo fresh rdyR valR oldR1 oldR2 liveR ainv sim hA' hsim
@@ -377,11 +386,14 @@ macro "bfinNoSlot" tt:term : tactic => `(tactic|
    case lCopy =>
      clearIf nSB nUaf nDf nPn geo fresh rdyR valR oldR1 oldR2 liveR ainv sim hA' hsim
      (first | simp only [nextSt, clo, hu0, touch, alloc, free, proj, linz_B, linz_res, linz_closing, linz_ready, linz_val, linz_own, linz_head, take_B, take_res, take_closing, take_ready, take_val, take_own, take_head, noneLP_B, noneLP_res, noneLP_closing, noneLP_ready, noneLP_val, noneLP_own, noneLP_head, ite_linz_B, ite_linz_res, ite_linz_closing, ite_linz_ready, ite_linz_val, ite_linz_own, ite_linz_head] | skip) <;> grind
+   case lRd =>
+     clearIf nSB nUaf nDf nPn geo fresh rdyR valR oldR1 oldR2 liveR ainv sim hA' hsim
+     (first | simp only [nextSt, clo, hu0, touch, alloc, free, proj, linz_B, linz_res, linz_closing, linz_ready, linz_val, linz_own, linz_head, take_B, take_res, take_closing, take_ready, take_val, take_own, take_head, noneLP_B, noneLP_res, noneLP_closing, noneLP_ready, noneLP_val, noneLP_own, noneLP_head, ite_linz_B, ite_linz_res, ite_linz_closing, ite_linz_ready, ite_linz_val, ite_linz_own, ite_linz_head] | skip) <;> grind
    case lHead =>
      clearIf nSB nUaf nDf nPn geo fresh rdyR valR oldR1 oldR2 liveR ainv sim hA' hsim
      (first | simp only [nextSt, clo, hu0, touch, alloc, free, proj, linz_B, linz_res, linz_closing, linz_ready, linz_val, linz_own, linz_head, take_B, take_res, take_closing, take_ready, take_val, take_own, take_head, noneLP_B, noneLP_res, noneLP_closing, noneLP_ready, noneLP_val, noneLP_own, noneLP_head, ite_linz_B, ite_linz_res, ite_linz_closing, ite_linz_ready, ite_linz_val, ite_linz_own, ite_linz_head] | skip) <;> grind
    case dE =>
-     clearIf nSB nUaf nDf nPn psetA waitA psetB hbT geo fresh lnk rdyR valR lHb lPi lCi lFast lStore lCopy lHead oldR1 oldR2 liveR ainv sim hA' hsim hx1 hx2 hx3 hx4 hx5 hx6 hx7
+     clearIf nSB nUaf nDf nPn psetA waitA psetB hbT geo fresh lnk rdyR valR lHb lPi lCi lFast lStore lCopy lRd lHead oldR1 oldR2 liveR ainv sim hA' hsim hx1 hx2 hx3 hx4 hx5 hx6 hx7
      (first | simp only [nextSt, clo, hu0, touch, alloc, free, proj, linz_B, linz_res, linz_closing, linz_ready, linz_val, linz_own, linz_head, take_B, take_res, take_closing, take_ready, take_val, take_own, take_head, noneLP_B, noneLP_res, noneLP_closing, noneLP_ready, noneLP_val, noneLP_own, noneLP_head, ite_linz_B, ite_linz_res, ite_linz_closing, ite_linz_ready, ite_linz_val, ite_linz_own, ite_linz_head] | skip) <;> grind
    case dF1 =>
      clearIf nSB nUaf nDf nPn A_hl A_lr A_lc A_helped A_rdy psetA waitA psetB hbT geo fresh rdyR valR oldR1 oldR2 liveR ainv sim hA' hsim hx1 hx2 hx3 hx4 hx5 hx6 hx7
